@@ -1,5 +1,212 @@
 # Loaded by gen.py (M, T and the file-name constants are injected).  One block per property.
 
+# =============================================================================================== C01 / C17 (hardening)
+def _twin_edits(twin, only=None):
+    """Edits (file, old, new) of a confirmed twin patch: one per hunk, old = context + removed lines, new = context + added."""
+    import os as _os
+    here = _os.path.dirname(_os.path.abspath(__file__))
+    out, cur, f = [], None, None
+    for line in open(_os.path.join(here, '..', 'twins', twin, 'patch.diff'), encoding='utf-8').read().split('\n'):
+        if line.startswith('+++ b/'):
+            f = line[6:]
+        elif line.startswith('@@'):
+            cur = [f, [], []]
+            out.append(cur)
+        elif cur is not None and line[:1] in (' ', '-', '+') and not line.startswith(('--- ', '+++ ')):
+            if line[0] in ' -':
+                cur[1].append(line[1:])
+            if line[0] in ' +':
+                cur[2].append(line[1:])
+        elif line.startswith('diff '):
+            cur = None
+    eds = [(f, '\n'.join(o) + '\n', '\n'.join(n) + '\n') for f, o, n in out if only is None or f in only]
+    return eds
+
+
+def TW(prop, id, twin, only=None):
+    eds = _twin_edits(twin, only)
+    T(prop, id, eds[0][0], eds[0][1], eds[0][2], more=eds[1:])
+
+
+_VERIFY_LOOP_TAIL = """                issues = signature_issues | subkey_issues
+                if issues and issues.causes_signature_verify_to_fail:
+                    sigv.add_sigsubj(sig, self, subj, issues)
+                else:
+                    verified = self._key.verify(sig.hashdata(subj), sig.__sig__, getattr(hashes, sig.hash_algorithm.name)())
+                    if verified is NotImplemented:
+                        raise NotImplementedError(sig.key_algorithm)
+
+                    sigv.add_sigsubj(sig, self, subj, SecurityIssues.WrongSig if not verified else SecurityIssues.OK)
+"""
+_PRED = "        return bool(self & (\n            SecurityIssues.WrongSig\n            | SecurityIssues.Expired\n            | SecurityIssues.Disabled\n            | SecurityIssues.Invalid\n            | SecurityIssues.NoSelfSignature\n        ))"
+_GOOD = "        yield from (\n            sigsub\n            for sigsub in self._subjects\n            if not sigsub.issues\n            or (sigsub.issues and not sigsub.issues.causes_signature_verify_to_fail)\n        )"
+_BAD = "        yield from (\n            sigsub\n            for sigsub in self._subjects\n            if sigsub.issues and sigsub.issues.causes_signature_verify_to_fail\n        )"
+_BOOL = "        return all(\n            sigsub.issues is SecurityIssues.OK\n            or (sigsub.issues and not sigsub.issues.causes_signature_verify_to_fail)\n            for sigsub in self._subjects\n        )"
+_REC = "        self._subjects.append(self._sigsubj(issues, by, signature, subject))"
+_WRONGSIG_REC = "                    sigv.add_sigsubj(sig, self, subj, SecurityIssues.WrongSig if not verified else SecurityIssues.OK)"
+
+# ---- the confirmed twins of both properties, hunk by hunk (families: extend(generator) / append, if-else restructuring,
+#      temporaries, loops instead of comprehensions / all(), helper extraction, keyword construction, guard inversion)
+TW('C01', 'twin-C01-ref1', 'C01-ref1')
+TW('C01', 'twin-C01-ref2', 'C01-ref2')
+TW('C01', 'twin-C01-ref3', 'C01-ref3')
+TW('C01', 'twin-C01-ref4', 'C01-ref4')
+TW('C01', 'twin-C17-ref2', 'C17-ref2')
+TW('C17', 'twin-C01-ref2', 'C01-ref2')
+TW('C17', 'twin-C01-ref4', 'C01-ref4')
+TW('C17', 'twin-C17-ref1', 'C17-ref1')
+TW('C17', 'twin-C17-ref2', 'C17-ref2')
+TW('C17', 'twin-C17-ref3', 'C17-ref3')
+TW('C17', 'twin-C17-ref4', 'C17-ref4')
+
+# ---- C01.1: key list built with insert() and hashed in one loop (interp: list.insert)
+_REVOC = "            if self.type == SignatureType.SubkeyRevocation:\n                # hash the primary key first if this is a Subkey Revocation signature\n                _s = subject.parent.hashdata\n                _data += b'\\x99' + self.int_to_bytes(len(_s), 2) + _s\n\n            _s = subject.hashdata\n            _data += b'\\x99' + self.int_to_bytes(len(_s), 2) + _s\n"
+T('C01', 'twin-revocation-key-list', PGP, _REVOC,
+  "            hashed_keys = [subject]\n            if self.type == SignatureType.SubkeyRevocation:\n                hashed_keys.insert(0, subject.parent)\n\n            for key in hashed_keys:\n                _s = key.hashdata\n                _data += b'\\x99' + self.int_to_bytes(len(_s), 2) + _s\n")
+M('C01', 'revocation-key-list-order', PGP, _REVOC,
+  "            hashed_keys = [subject]\n            if self.type == SignatureType.SubkeyRevocation:\n                hashed_keys.insert(1, subject.parent)\n\n            for key in hashed_keys:\n                _s = key.hashdata\n                _data += b'\\x99' + self.int_to_bytes(len(_s), 2) + _s\n", 'C01.1')
+# ---- C01.2 (loop pair by binding, records by position/keyword, NotImplemented decided on path facts)
+T('C01', 'twin-extend-genexp', PGP, "                sspairs += [ (sig, subject) for sig in _filter_sigs(subject.__sig__) ]",
+  "                sspairs.extend((sig, subject) for sig in _filter_sigs(subject.__sig__))")
+T('C01', 'twin-outcome-ifelse', PGP, _WRONGSIG_REC,
+  "                    if verified:\n                        outcome = SecurityIssues.OK\n                    else:\n                        outcome = SecurityIssues.WrongSig\n                    sigv.add_sigsubj(sig, self, subj, outcome)")
+T('C01', 'twin-record-call-keywords', PGP, _WRONGSIG_REC,
+  "                    sigv.add_sigsubj(signature=sig, by=self, subject=subj, issues=SecurityIssues.WrongSig if not verified else SecurityIssues.OK)")
+T('C01', 'twin-ni-reversed', PGP, "                    if verified is NotImplemented:\n                        raise NotImplementedError(sig.key_algorithm)\n\n" + _WRONGSIG_REC,
+  "                    if NotImplemented is not verified:\n                        sigv.add_sigsubj(sig, self, subj, SecurityIssues.WrongSig if not verified else SecurityIssues.OK)\n                    else:\n                        raise NotImplementedError(sig.key_algorithm)")
+T('C01', 'twin-loop-names', PGP, "        for sig, subj in sspairs:\n            if self.fingerprint.keyid != sig.signer and sig.signer in self.subkeys:\n                sigv &= self.subkeys[sig.signer].verify(subj, sig)\n",
+  "        for pair in sspairs:\n            sig, subj = pair\n            if self.fingerprint.keyid != sig.signer and sig.signer in self.subkeys:\n                sigv &= self.subkeys[sig.signer].verify(subj, signature=sig)\n")
+M('C01', 'record-outer-subject', PGP, _WRONGSIG_REC,
+  "                    sigv.add_sigsubj(sig, self, subject, SecurityIssues.WrongSig if not verified else SecurityIssues.OK)", 'C01.2')
+M('C01', 'ni-compared-with-none', PGP, "                    if verified is NotImplemented:", "                    if verified is None:", 'C01.2')
+M('C01', 'ni-polarity', PGP, "                    if verified is NotImplemented:", "                    if verified is not NotImplemented:", 'C01.2')
+M('C01', 'delegate-outer-signature', PGP, "sigv &= self.subkeys[sig.signer].verify(subj, sig)", "sigv &= self.subkeys[sig.signer].verify(subj, signature)", 'C01.2')
+M('C01', 'delegate-keyword-swapped', PGP, "sigv &= self.subkeys[sig.signer].verify(subj, sig)", "sigv &= self.subkeys[sig.signer].verify(subject=sig, signature=subj)", 'C01.2')
+M('C01', 'outcome-ifelse-swapped', PGP, _WRONGSIG_REC,
+  "                    if verified:\n                        outcome = SecurityIssues.WrongSig\n                    else:\n                        outcome = SecurityIssues.OK\n                    sigv.add_sigsubj(sig, self, subj, outcome)", 'C01.2')
+# ---- C01.3 (interpreter paths; caller values by parameter position)
+_DSA_VERIFY = "        try:\n            self.__pubkey__().verify(sigbytes, subj, hash_alg)\n        except InvalidSignature:\n            return False\n        return True"
+T('C01', 'twin-verify-ok-flag', FL, _DSA_VERIFY,
+  "        ok = True\n        try:\n            self.__pubkey__().verify(sigbytes, subj, hash_alg)\n        except InvalidSignature:\n            ok = False\n        return ok")
+T('C01', 'twin-verify-param-names', FL, "    def verify(self, subj, sigbytes, hash_alg):\n        try:\n            self.__pubkey__().verify(sigbytes, subj, ec.ECDSA(hash_alg))",
+  "    def verify(self, data, sig, halg):\n        try:\n            self.__pubkey__().verify(sig, data, ec.ECDSA(halg))")
+M('C01', 'ok-flag-never-cleared', FL, _DSA_VERIFY,
+  "        ok = True\n        try:\n            self.__pubkey__().verify(sigbytes, subj, hash_alg)\n        except InvalidSignature:\n            pass\n        return ok", 'C01.3')
+M('C01', 'ok-flag-set-before-call', FL, _DSA_VERIFY,
+  "        ok = False\n        try:\n            ok = True\n            self.__pubkey__().verify(sigbytes, subj, hash_alg)\n        except InvalidSignature:\n            pass\n        return ok", 'C01.3')
+M('C01', 'ecdsa-args-swapped', FL, "            self.__pubkey__().verify(sigbytes, subj, ec.ECDSA(hash_alg))", "            self.__pubkey__().verify(subj, sigbytes, ec.ECDSA(hash_alg))", 'C01.3')
+M('C01', 'eddsa-fixed-prehash', FL, "        digest = hashes.Hash(hash_alg, backend=default_backend())\n        digest.update(subj)\n        subj = digest.finalize()\n        try:",
+  "        digest = hashes.Hash(hashes.SHA256(), backend=default_backend())\n        digest.update(subj)\n        subj = digest.finalize()\n        try:", 'C01.3')
+# ---- C01.4 / C17.4 (record model)
+T('C01', 'twin-record-keywords', TY, _REC, "        self._subjects.append(self._sigsubj(issues=issues, by=by, signature=signature, subject=subject))")
+T('C01', 'twin-record-temp', TY, _REC, "        entry = self._sigsubj(subject=subject, signature=signature, by=by, issues=issues)\n        self._subjects.append(entry)")
+M('C01', 'record-fields-swapped', TY, _REC, "        self._subjects.append(self._sigsubj(issues, by, subject, signature))", 'C01.4')
+M('C01', 'record-keywords-swapped', TY, _REC, "        self._subjects.append(self._sigsubj(issues=issues, by=by, signature=subject, subject=signature))", 'C01.4')
+M('C01', 'default-advisory-only', TY, "            issues = SecurityIssues(0xFF)", "            issues = SecurityIssues.InsecureCurve", 'C01.4')
+M('C17', 'default-revoked-only', TY, "            issues = SecurityIssues(0xFF)", "            issues = SecurityIssues.Revoked", 'C17.4')
+M('C17', 'record-verdict-dropped', TY, _REC, "        self._subjects.append(self._sigsubj(SecurityIssues.OK if issues is None else issues, by, signature, subject))", 'C17.4',
+  more=[(TY, "        if issues is None:\n            from .constants import SecurityIssues\n            issues = SecurityIssues(0xFF)\n", "        from .constants import SecurityIssues\n")])
+# ---- C17.1 (truth table of the predicate)
+T('C17', 'twin-pred-loop', CO, _PRED,
+  "        for flag in (SecurityIssues.WrongSig, SecurityIssues.Expired, SecurityIssues.Disabled, SecurityIssues.Invalid, SecurityIssues.NoSelfSignature):\n            if flag in self:\n                return True\n        return False")
+T('C17', 'twin-pred-or-chain', CO, _PRED,
+  "        return (SecurityIssues.WrongSig in self or SecurityIssues.Expired in self or SecurityIssues.Disabled in self\n                or SecurityIssues.Invalid in self or SecurityIssues.NoSelfSignature in self)")
+T('C17', 'twin-pred-int-mask', CO, _PRED, "        return (self.value & 0x417) > 0")
+T('C17', 'twin-pred-not-disjoint', CO, _PRED,
+  "        failing = SecurityIssues.WrongSig | SecurityIssues.Expired | SecurityIssues.Disabled | SecurityIssues.Invalid | SecurityIssues.NoSelfSignature\n        return not (self & failing) == SecurityIssues(0)")
+M('C17', 'pred-any-lacks-invalid', CO, _PRED,
+  "        return any(f in self for f in (SecurityIssues.WrongSig, SecurityIssues.Expired, SecurityIssues.Disabled, SecurityIssues.NoSelfSignature))", 'C17.1')
+M('C17', 'pred-all-of', CO, _PRED,
+  "        return all(f in self for f in (SecurityIssues.WrongSig, SecurityIssues.Expired, SecurityIssues.Disabled, SecurityIssues.Invalid, SecurityIssues.NoSelfSignature))", 'C17.1')
+M('C17', 'pred-combined-mask-in', CO, _PRED,
+  "        return (SecurityIssues.WrongSig | SecurityIssues.Expired | SecurityIssues.Disabled | SecurityIssues.Invalid | SecurityIssues.NoSelfSignature) in self", 'C17.1')
+M('C17', 'pred-int-mask-lacks-noselfsig', CO, _PRED, "        return (self.value & 0x17) > 0", 'C17.1')
+M('C17', 'pred-loop-else-true', CO, _PRED,
+  "        for flag in (SecurityIssues.WrongSig, SecurityIssues.Expired, SecurityIssues.Disabled, SecurityIssues.Invalid, SecurityIssues.NoSelfSignature):\n            if flag not in self:\n                return False\n        return True", 'C17.1')
+M('C17', 'pred-advisory-pair', CO, _PRED,
+  "        if SecurityIssues.InsecureCurve in self and SecurityIssues.BrokenAsymmetricFunc in self:\n            return True\n" + _PRED, 'C17.1')
+# ---- C17.2 (selectors decided per truth-table row, loop or comprehension)
+T('C17', 'twin-good-loop-continue', TY, _GOOD,
+  "        for sigsub in self._subjects:\n            verdict = sigsub.issues\n            if verdict and verdict.causes_signature_verify_to_fail:\n                continue\n            yield sigsub")
+T('C17', 'twin-bad-index', TY, _BAD,
+  "        yield from (sigsub for sigsub in self._subjects if sigsub[0] and sigsub[0].causes_signature_verify_to_fail)")
+T('C17', 'twin-bool-not-any', TY, _BOOL,
+  "        return not any(\n            sigsub.issues is not SecurityIssues.OK\n            and not (sigsub.issues and not sigsub.issues.causes_signature_verify_to_fail)\n            for sigsub in self._subjects\n        )")
+T('C17', 'twin-and-extend', TY, "        self._subjects += other._subjects\n        return self", "        self._subjects.extend(other._subjects)\n        return self")
+M('C17', 'good-loop-polarity', TY, _GOOD,
+  "        for sigsub in self._subjects:\n            verdict = sigsub.issues\n            if not verdict or verdict.causes_signature_verify_to_fail:\n                yield sigsub", 'C17.2')
+M('C17', 'bad-loop-continue-wrong', TY, _BAD,
+  "        for sigsub in self._subjects:\n            verdict = sigsub.issues\n            if not verdict:\n                continue\n            yield sigsub", 'C17.2')
+M('C17', 'bool-loop-advisory-fails', TY, _BOOL,
+  "        for sigsub in self._subjects:\n            if sigsub.issues is SecurityIssues.OK:\n                continue\n            return False\n        return True", 'C17.2')
+M('C17', 'bool-loop-first-decides', TY, _BOOL,
+  "        for sigsub in self._subjects:\n            if sigsub.issues is SecurityIssues.OK or not sigsub.issues.causes_signature_verify_to_fail:\n                return True\n        return False", 'C17.2')
+M('C17', 'bool-ignores-predicate', TY, _BOOL,
+  "        for sigsub in self._subjects:\n            if sigsub.issues is None:\n                return False\n        return True", 'C17.2')
+M('C17', 'bad-skips-first-record', TY, _BAD,
+  "        for sigsub in self._subjects[1:]:\n            if sigsub.issues and sigsub.issues.causes_signature_verify_to_fail:\n                yield sigsub", 'C17.2')
+M('C17', 'and-replaces', TY, "        self._subjects += other._subjects\n        return self", "        self._subjects = other._subjects\n        return self", 'C17.2')
+M('C17', 'and-returns-other', TY, "        self._subjects += other._subjects\n        return self", "        self._subjects += other._subjects\n        return other", 'C17.2')
+M('C17', 'and-extends-self', TY, "        self._subjects += other._subjects\n        return self", "        self._subjects.extend(self._subjects)\n        return self", 'C17.2')
+# ---- C17.3 / C17.4 / C17.5 (PGPKey.verify rows; issue set as a flag expression over its sources)
+_VERIFY_LOOP_TAIL_CONTINUE = """                issues = signature_issues | subkey_issues
+                if issues and issues.causes_signature_verify_to_fail:
+                    sigv.add_sigsubj(sig, self, subj, issues)
+                    continue
+
+                verified = self._key.verify(sig.hashdata(subj), sig.__sig__, getattr(hashes, sig.hash_algorithm.name)())
+                if verified is NotImplemented:
+                    raise NotImplementedError(sig.key_algorithm)
+
+                sigv.add_sigsubj(sig, self, subj, SecurityIssues.WrongSig if not verified else SecurityIssues.OK)
+"""
+T('C17', 'twin-guard-continue', PGP, _VERIFY_LOOP_TAIL, _VERIFY_LOOP_TAIL_CONTINUE)
+T('C17', 'twin-issues-order', PGP, "                issues = signature_issues | subkey_issues", "                issues = subkey_issues | signature_issues")
+T('C17', 'twin-issues-names', PGP, "                issues = signature_issues | subkey_issues\n                if issues and issues.causes_signature_verify_to_fail:\n                    sigv.add_sigsubj(sig, self, subj, issues)",
+  "                found = signature_issues | subkey_issues\n                if found.causes_signature_verify_to_fail:\n                    sigv.add_sigsubj(sig, self, subj, found)")
+T('C17', 'twin-mask-literal', PGP, "                    signature_issues &= ~SecurityIssues.HashFunctionNotCollisionResistant",
+  "                    signature_issues = signature_issues & ~SecurityIssues(1 << 6)")
+T('C17', 'twin-record-once-after', PGP, _VERIFY_LOOP_TAIL,
+  "                issues = signature_issues | subkey_issues\n                if issues and issues.causes_signature_verify_to_fail:\n                    outcome = issues\n                else:\n                    verified = self._key.verify(sig.hashdata(subj), sig.__sig__, getattr(hashes, sig.hash_algorithm.name)())\n                    if verified is NotImplemented:\n                        raise NotImplementedError(sig.key_algorithm)\n\n                    outcome = SecurityIssues.WrongSig if not verified else SecurityIssues.OK\n                sigv.add_sigsubj(sig, self, subj, outcome)\n")
+M('C17', 'continue-skips-record', PGP, "                    sigv.add_sigsubj(sig, self, subj, issues)\n", "                    continue\n", 'C17.3')
+M('C17', 'branch-on-primitives-only', PGP, "                if issues and issues.causes_signature_verify_to_fail:",
+  "                if signature_issues and signature_issues.causes_signature_verify_to_fail:", 'C17')
+M('C17', 'disqualified-records-primitives', PGP, "                    sigv.add_sigsubj(sig, self, subj, issues)\n", "                    sigv.add_sigsubj(sig, self, subj, signature_issues)\n", 'C17.4')
+M('C17', 'disqualified-records-outer-subject', PGP, "                    sigv.add_sigsubj(sig, self, subj, issues)\n", "                    sigv.add_sigsubj(sig, self, subject, issues)\n", 'C17.4')
+M('C17', 'branch-or', PGP, "                if issues and issues.causes_signature_verify_to_fail:", "                if issues or issues.causes_signature_verify_to_fail:", 'C17.4')
+M('C17', 'guard-continue-dropped', PGP, _VERIFY_LOOP_TAIL, _VERIFY_LOOP_TAIL_CONTINUE.replace("                    continue\n", ""), 'C17')
+M('C17', 'mask-expired-when-self-verifying', PGP, "                    signature_issues &= ~SecurityIssues.HashFunctionNotCollisionResistant",
+  "                    subkey_issues &= ~SecurityIssues.Expired", 'C17.5')
+M('C17', 'mask-all-hash-bits', PGP, "                    signature_issues &= ~SecurityIssues.HashFunctionNotCollisionResistant",
+  "                    signature_issues &= ~(SecurityIssues.HashFunctionNotCollisionResistant | SecurityIssues.NoSelfSignature)", 'C17.5')
+M('C17', 'issues-only-soundness', PGP, "                issues = signature_issues | subkey_issues", "                issues = subkey_issues | subkey_issues", 'C17.5')
+M('C17', 'issues-xor', PGP, "                issues = signature_issues | subkey_issues", "                issues = signature_issues ^ subkey_issues", 'C17')
+# ---- further spellings of the same functions (generalisation guards)
+T('C17', 'twin-pred-len-list', CO, _PRED,
+  "        hits = [f for f in (SecurityIssues.WrongSig, SecurityIssues.Expired, SecurityIssues.Disabled, SecurityIssues.Invalid, SecurityIssues.NoSelfSignature) if f & self]\n        return len(hits) > 0")
+T('C17', 'twin-pred-mask-loop', CO, _PRED,
+  "        mask = 0\n        for f in (SecurityIssues.WrongSig, SecurityIssues.Expired, SecurityIssues.Disabled, SecurityIssues.Invalid, SecurityIssues.NoSelfSignature):\n            mask |= f\n        return bool(self & mask)")
+T('C17', 'twin-pred-value-ne', CO, _PRED,
+  "        failing = SecurityIssues.WrongSig | SecurityIssues.Expired | SecurityIssues.Disabled | SecurityIssues.Invalid | SecurityIssues.NoSelfSignature\n        return (self & failing).value != 0")
+T('C17', 'twin-good-returns-iter', TY, _GOOD,
+  "        return iter([entry for entry in self._subjects if not (entry.issues and entry.issues.causes_signature_verify_to_fail)])")
+T('C17', 'twin-default-ifexp', TY, "        if issues is None:\n            from .constants import SecurityIssues\n            issues = SecurityIssues(0xFF)\n" + _REC,
+  "        from .constants import SecurityIssues\n        verdict = SecurityIssues(0xFF) if issues is None else issues\n        self._subjects.append(self._sigsubj(verdict, by, signature, subject))")
+T('C17', 'twin-fail-flag-hoisted', PGP, "                if issues and issues.causes_signature_verify_to_fail:\n                    sigv.add_sigsubj(sig, self, subj, issues)",
+  "                disqualified = bool(issues) and issues.causes_signature_verify_to_fail\n                if disqualified:\n                    sigv.add_sigsubj(sig, self, subj, issues)")
+T('C01', 'twin-key-alias', PGP, "                    verified = self._key.verify(sig.hashdata(subj), sig.__sig__, getattr(hashes, sig.hash_algorithm.name)())",
+  "                    keypkt = self._key\n                    verified = keypkt.verify(sig.hashdata(subj), sig.__sig__, getattr(hashes, sig.hash_algorithm.name)())")
+T('C01', 'twin-subkey-alias', PGP, "                sigv &= self.subkeys[sig.signer].verify(subj, sig)",
+  "                signing_subkey = self.subkeys[sig.signer]\n                sigv &= signing_subkey.verify(subj, sig)")
+_EXPIRED = "        expires = self.expires_at\n        if expires is not None:\n            return expires <= datetime.now(timezone.utc)\n\n        return False"
+T('C17', 'twin-expired-now-first', PGP, "            return expires <= datetime.now(timezone.utc)", "            now = datetime.now(timezone.utc)\n            return now >= expires")
+T('C17', 'twin-expired-guard-first', PGP, _EXPIRED,
+  "        deadline = self.expires_at\n        if deadline is None:\n            return False\n\n        return not deadline > datetime.now(timezone.utc)")
+M('C17', 'expired-inverted', PGP, "            return expires <= datetime.now(timezone.utc)", "            return expires >= datetime.now(timezone.utc)", 'C17.5')
+M('C17', 'expired-vs-created', PGP, "            return expires <= datetime.now(timezone.utc)", "            return expires <= self.created", 'C17.5')
+M('C17', 'expired-without-expiry', PGP, _EXPIRED,
+  "        expires = self.expires_at\n        if expires is None:\n            return self.created <= datetime.now(timezone.utc)\n\n        return expires <= datetime.now(timezone.utc)", 'C17.5')
+
 # =============================================================================================== C12
 M('C12', 'preload-i-plus-1', FL, "            _h.update(b'\\x00' * i)", "            _h.update(b'\\x00' * (i + 1))", 'C12.1')
 M('C12', 'pass-before-salt', FL, "        hashdata = ((hsalt + hpass) * hcount) + (hsalt + hpass)[:hleft]", "        hashdata = ((hpass + hsalt) * hcount) + (hpass + hsalt)[:hleft]", 'C12.1')
@@ -18,6 +225,86 @@ M('C12', 'hash-update-order', FL, "            _h.update(b'\\x00' * i)\n        
 T('C12', 'twin-mod', FL, "        hleft = count - (hcount * len(hsalt + hpass))", "        hleft = count % len(hsalt + hpass)")
 T('C12', 'twin-one-update', FL, "            _h.update(b'\\x00' * i)\n            _h.update(hashdata)", "            _h.update((b'\\x00' * i) + hashdata)")
 T('C12', 'twin-count-mask-hex', FL, "        return (16 + (self._count & 15)) << ((self._count >> 4) + 6)", "        return (0x10 | (self._count & 0x0F)) << (6 + (self._count >> 4))")
+# --- hardening G5: C12 by value (stream length / context count / truncation), count codec as a small function, S2K codec
+_DK_COUNT = "        count = len(hsalt + hpass)\n        if self.specifier == String2KeyType.Iterated and self.count > len(hsalt + hpass):\n            count = self.count\n"
+_DK_LOOP = "        h = []\n        for i in range(0, ctx):\n            _h = self.halg.hasher\n            _h.update(b'\\x00' * i)\n            _h.update(hashdata)\n            h.append(_h)\n"
+_DK_Q = "        hcount = (count // len(hsalt + hpass))\n        hleft = count - (hcount * len(hsalt + hpass))\n"
+_CNT_GET = "        return (16 + (self._count & 15)) << ((self._count >> 4) + 6)"
+_CNT_SET = "        if val < 0 or val > 255:  # pragma: no cover\n            raise ValueError(\"count must be between 0 and 256\")\n        self._count = val\n"
+T('C12', 'twin-count-temporaries', FL, _CNT_GET, "        coded = self._count\n        mantissa = 16 + (coded & 0x0F)\n        exponent = (coded >> 4) + self._EXPBIAS\n        return mantissa << exponent",
+  more=[(FL, "    @sdproperty\n    def count(self):\n", "    _EXPBIAS = 6\n\n    @sdproperty\n    def count(self):\n")])
+T('C12', 'twin-count-divmod', FL, _CNT_GET, "        exponent, mantissa = divmod(self._count, 16)\n        return (16 + mantissa) * 2 ** (exponent + 6)")
+T('C12', 'twin-count-branchy', FL, _CNT_GET, "        c = self._count\n        if c < 16:\n            return (16 + c) << 6\n        else:\n            n = 16 | (c & 15)\n            n <<= (c >> 4) + 6\n            return n")
+T('C12', 'twin-count-setter-chained', FL, _CNT_SET, "        if not 0 <= val <= 255:  # pragma: no cover\n            raise ValueError(\"count must be between 0 and 256\")\n        self._count = val\n")
+T('C12', 'twin-count-setter-else', FL, _CNT_SET, "        if val in range(256):\n            self._count = val\n        else:  # pragma: no cover\n            raise ValueError(\"count must be between 0 and 256\")\n"
+  .replace('val in range(256)', '0 <= val and val < 256'))
+T('C12', 'twin-count-setter-range', FL, _CNT_SET, "        if val not in range(256):  # pragma: no cover\n            raise ValueError(\"count must be between 0 and 256\")\n        self._count = int(val)\n")
+M('C12', 'count-setter-range-255', FL, _CNT_SET, "        if val not in range(255):  # pragma: no cover\n            raise ValueError(\"count must be between 0 and 256\")\n        self._count = val\n", 'C12.3')
+M('C12', 'count-mantissa-plus', FL, _CNT_GET, "        coded = self._count\n        mantissa = 16 + (coded & 0x0F)\n        exponent = (coded >> 4) + 6\n        return mantissa << exponent + 1", 'C12.3')
+M('C12', 'count-shift-3', FL, _CNT_GET, "        coded = self._count\n        mantissa = 16 + (coded & 15)\n        exponent = (coded >> 3) + 6\n        return mantissa << exponent", 'C12.3')
+M('C12', 'count-setter-lower-1', FL, _CNT_SET, "        if not 1 <= val <= 255:  # pragma: no cover\n            raise ValueError(\"count must be between 0 and 256\")\n        self._count = val\n", 'C12.3')
+M('C12', 'count-setter-masks', FL, _CNT_SET, "        self._count = val & 0xFF\n", 'C12.3')
+T('C12', 'twin-dk-unit-temp', FL, _DK_COUNT + "\n" + _DK_Q + "\n        hashdata = ((hsalt + hpass) * hcount) + (hsalt + hpass)[:hleft]\n",
+  "        material = hsalt + hpass\n        mlen = len(material)\n        count = mlen\n        if self.specifier == String2KeyType.Iterated and self.count > mlen:\n            count = self.count\n\n        hcount, hleft = divmod(count, mlen)\n\n        hashdata = (material * hcount) + material[:hleft]\n")
+T('C12', 'twin-dk-len-sum', FL, _DK_Q, "        ulen = len(hsalt) + len(hpass)\n        hcount = count // ulen\n        hleft = count % ulen\n")
+T('C12', 'twin-dk-max', FL, _DK_COUNT, "        if self.specifier == String2KeyType.Iterated:\n            count = max(self.count, len(hsalt + hpass))\n        else:\n            count = len(hsalt + hpass)\n")
+T('C12', 'twin-dk-le-swapped', FL, _DK_COUNT, "        if self.specifier != String2KeyType.Iterated or self.count <= len(hsalt + hpass):\n            count = len(hsalt + hpass)\n        else:\n            count = self.count\n")
+T('C12', 'twin-dk-simple-one-copy', FL, "        hashdata = ((hsalt + hpass) * hcount) + (hsalt + hpass)[:hleft]\n",
+  "        if self.specifier == String2KeyType.Iterated:\n            hashdata = ((hsalt + hpass) * hcount) + (hsalt + hpass)[:hleft]\n        else:\n            hashdata = hsalt + hpass\n")
+T('C12', 'twin-dk-comprehension-helper', FL, _DK_LOOP, "        h = [self._preloaded_context(i, hashdata) for i in range(ctx)]\n",
+  more=[(FL, "    def derive_key(self, passphrase):\n", "    def _preloaded_context(self, nzeros, data):\n        hctx = self.halg.hasher\n        hctx.update(b'\\x00' * nzeros)\n        hctx.update(data)\n        return hctx\n\n    def derive_key(self, passphrase):\n")])
+T('C12', 'twin-dk-digest-in-loop', FL, _DK_LOOP, "        h = b''\n        for i in range(ctx):\n            _h = self.halg.hasher\n            _h.update(b'\\x00' * i + hashdata)\n            h += _h.digest()\n",
+  more=[(FL, "        return b''.join(hc.digest() for hc in h)[:(keylen // 8)]", "        return h[:keylen >> 3]")])
+T('C12', 'twin-dk-ceil-intdiv', FL, "        ctx = int(math.ceil((keylen / hashlen)))", "        ctx = (keylen + hashlen - 1) // hashlen")
+T('C12', 'twin-dk-ceil-neg', FL, "        ctx = int(math.ceil((keylen / hashlen)))", "        ctx = -(-keylen // hashlen)")
+T('C12', 'twin-dk-encode-default', FL, "            hpass = passphrase.encode('utf-8')", "            hpass = passphrase.encode()")
+T('C12', 'twin-dk-isinstance-str', FL, "        if isinstance(passphrase, bytes):\n            hpass = passphrase\n        else:\n            hpass = passphrase.encode('utf-8')",
+  "        hpass = passphrase\n        if not isinstance(passphrase, bytes):\n            hpass = passphrase.encode('utf-8')")
+T('C12', 'twin-dk-preload-bytes-n', FL, "            _h.update(b'\\x00' * i)\n", "            _h.update(bytes(i))\n")
+T('C12', 'twin-dk-salt-membership', FL, "        hsalt = b''\n", "", more=[(FL, "        if self.specifier >= String2KeyType.Salted:\n            hsalt = bytes(self.salt)\n",
+  "        hsalt = bytes(self.salt) if self.specifier in (String2KeyType.Salted, String2KeyType.Iterated) else b''\n")])
+T('C12', 'twin-dk-salt-not-simple', FL, "        if self.specifier >= String2KeyType.Salted:\n            hsalt = bytes(self.salt)\n", "        if self.specifier != String2KeyType.Simple:\n            hsalt = bytearray(self.salt)\n")
+T('C12', 'twin-dk-pass-tuple-isinstance', FL, "        if isinstance(passphrase, bytes):\n            hpass = passphrase\n        else:\n            hpass = passphrase.encode('utf-8')",
+  "        hpass = passphrase.encode('utf-8') if not isinstance(passphrase, (bytes, bytearray)) else passphrase")
+T('C12', 'twin-dk-listcomp-join', FL, "        return b''.join(hc.digest() for hc in h)[:(keylen // 8)]", "        digests = [hc.digest() for hc in h]\n        key = b''.join(digests)\n        return key[:keylen // 8]")
+T('C12', 'twin-dk-slice-of-longer-repeat', FL, "        hashdata = ((hsalt + hpass) * hcount) + (hsalt + hpass)[:hleft]\n", "        hashdata = ((hsalt + hpass) * (hcount + 1))[:count]\n")
+M('C12', 'dk-slice-of-short-repeat', FL, "        hashdata = ((hsalt + hpass) * hcount) + (hsalt + hpass)[:hleft]\n", "        hashdata = ((hsalt + hpass) * hcount)[:count]\n", 'C12.1')
+M('C12', 'dk-slice-count-plus-len', FL, "        hashdata = ((hsalt + hpass) * hcount) + (hsalt + hpass)[:hleft]\n", "        hashdata = ((hsalt + hpass) * (hcount + 1))[:hcount * len(hsalt + hpass) + len(hsalt + hpass)]\n", 'C12.1')
+M('C12', 'dk-max-for-all', FL, _DK_COUNT, "        count = max(self.count, len(hsalt + hpass))\n", 'C12.1')
+M('C12', 'dk-count-lt', FL, _DK_COUNT, "        count = len(hsalt + hpass)\n        if self.specifier == String2KeyType.Iterated and self.count < len(hsalt + hpass):\n            count = self.count\n", 'C12.1')
+M('C12', 'dk-len-chars', FL, _DK_Q, "        ulen = len(hsalt) + len(passphrase)\n        hcount = count // ulen\n        hleft = count % ulen\n", 'C12.1')
+M('C12', 'dk-hleft-plus1', FL, _DK_Q, "        hcount, hleft = divmod(count, len(hsalt + hpass))\n        hleft += 1\n", 'C12.1')
+M('C12', 'dk-round-up-copies', FL, _DK_Q, "        hcount = -(-count // len(hsalt + hpass))\n        hleft = 0\n", 'C12.1')
+M('C12', 'dk-ctx-plus1', FL, "        ctx = int(math.ceil((keylen / hashlen)))", "        ctx = keylen // hashlen + 1", 'C12.2')
+M('C12', 'dk-ctx-bytes-vs-bits', FL, "        hashlen = self.halg.digest_size * 8\n", "        hashlen = self.halg.digest_size\n", 'C12.2')
+M('C12', 'dk-trunc-bits', FL, "        return b''.join(hc.digest() for hc in h)[:(keylen // 8)]", "        return b''.join(hc.digest() for hc in h)[:keylen]", 'C12.1')
+M('C12', 'dk-helper-appends-zeros', FL, _DK_LOOP, "        h = [self._preloaded_context(i, hashdata) for i in range(ctx)]\n", 'C12.1',
+  more=[(FL, "    def derive_key(self, passphrase):\n", "    def _preloaded_context(self, nzeros, data):\n        hctx = self.halg.hasher\n        hctx.update(data)\n        hctx.update(b'\\x00' * nzeros)\n        return hctx\n\n    def derive_key(self, passphrase):\n")])
+M('C12', 'dk-encode-latin1', FL, "            hpass = passphrase.encode('utf-8')", "            hpass = passphrase.encode('latin-1')", 'C12.1')
+_S2K_PARSE_HEAD = "        if bool(self):\n            self.encalg = packet[0]\n            del packet[0]\n\n            self.specifier = packet[0]\n            del packet[0]\n"
+T('C12', 'twin-writer-guard-clause', FL, "        _bytes.append(self.usage)\n        if bool(self):\n            _bytes.append(self.encalg)\n            _bytes.append(self.specifier)\n",
+  "        _bytes.append(self.usage)\n        if self.usage in (254, 255):\n            _bytes.append(self.encalg)\n            _bytes.append(self.specifier)\n")
+T('C12', 'twin-writer-halg-backing', FL, "            if self.specifier >= String2KeyType.Simple:\n                _bytes.append(self.halg)\n", "            _bytes.append(self._halg)\n")
+T('C12', 'twin-reader-iv-shift', FL, "                self.iv = packet[:(self.encalg.block_size // 8)]\n                del packet[:(self.encalg.block_size // 8)]",
+  "                ivlen = self.encalg.block_size >> 3\n                self.iv = packet[:ivlen]\n                del packet[:ivlen]")
+T('C12', 'twin-copy-renamed-local', FL, "        s2k = String2Key()\n        s2k.usage = self.usage\n        s2k.encalg = self.encalg\n        s2k.specifier = self.specifier\n        s2k.gnuext = self.gnuext\n        s2k.iv = self.iv\n        s2k.halg = self.halg\n        s2k.salt = copy.copy(self.salt)\n        s2k.count = self._count\n        s2k.scserial = self.scserial\n        return s2k",
+  "        dup = String2Key()\n        dup.usage = self.usage\n        dup.encalg = self.encalg\n        dup.specifier = self.specifier\n        dup.gnuext = self.gnuext\n        dup.iv = self.iv\n        dup.halg = self.halg\n        dup.salt = copy.copy(self.salt)\n        coded = self._count\n        dup.count = coded\n        dup.scserial = self.scserial\n        return dup")
+_S2K_WR = "        _bytes = bytearray()\n        _bytes.append(self.usage)\n        if bool(self):\n            _bytes.append(self.encalg)\n            _bytes.append(self.specifier)\n            if self.specifier == String2KeyType.GNUExtension:\n                return self._experimental_bytearray(_bytes)\n            if self.specifier >= String2KeyType.Simple:\n                _bytes.append(self.halg)\n            if self.specifier >= String2KeyType.Salted:\n                _bytes += self.salt\n            if self.specifier == String2KeyType.Iterated:\n                _bytes.append(self._count)\n            if self.iv is not None:\n                _bytes += self.iv\n        return _bytes\n"
+T('C12', 'twin-writer-restructured', FL, _S2K_WR, "        out = bytearray([self.usage])\n        if not self:\n            return out\n        out += bytearray([self.encalg, self.specifier])\n        if self.specifier == String2KeyType.GNUExtension:\n            return self._experimental_bytearray(out)\n        out.append(self.halg)\n        if self.specifier in (String2KeyType.Salted, String2KeyType.Iterated):\n            out.extend(self.salt)\n        if self.specifier == String2KeyType.Iterated:\n            out += self.int_to_bytes(self._count, 1)\n        if self.iv is None:\n            return out\n        return out + self.iv\n")
+M('C12', 'writer-salt-before-halg', FL, "            if self.specifier >= String2KeyType.Simple:\n                _bytes.append(self.halg)\n            if self.specifier >= String2KeyType.Salted:\n                _bytes += self.salt\n",
+  "            if self.specifier >= String2KeyType.Salted:\n                _bytes += self.salt\n            if self.specifier >= String2KeyType.Simple:\n                _bytes.append(self.halg)\n", 'C12.4')
+_S2K_RD = "        if bool(self):\n            self.encalg = packet[0]\n            del packet[0]\n\n            self.specifier = packet[0]\n            del packet[0]\n\n            if self.specifier == String2KeyType.GNUExtension:\n                return self._experimental_parse(packet, iv)\n\n            if self.specifier >= String2KeyType.Simple:\n                # this will always be true\n                self.halg = packet[0]\n                del packet[0]\n\n            if self.specifier >= String2KeyType.Salted:\n                self.salt = packet[:8]\n                del packet[:8]\n\n            if self.specifier == String2KeyType.Iterated:\n                self.count = packet[0]\n                del packet[0]\n\n            if iv:\n                self.iv = packet[:(self.encalg.block_size // 8)]\n                del packet[:(self.encalg.block_size // 8)]\n"
+T('C12', 'twin-reader-guard-clause', FL, _S2K_RD, "        if not bool(self):\n            return\n\n" + "".join((l[4:] if l.startswith('    ') else l) + "\n" for l in _S2K_RD.split("\n")[1:-1]))
+T('C12', 'twin-dk-ifelse-and-condexpr', FL, _DK_COUNT, "        if self.specifier == String2KeyType.Iterated and self.count > len(hsalt + hpass):\n            count = self.count\n        else:\n            count = len(hsalt + hpass)\n",
+  more=[(FL, "        if isinstance(passphrase, bytes):\n            hpass = passphrase\n        else:\n            hpass = passphrase.encode('utf-8')", "        hpass = passphrase if isinstance(passphrase, bytes) else passphrase.encode('utf-8')")])
+M('C12', 'writer-decoded-count', FL, "                _bytes.append(self._count)", "                _bytes.append(self.count)", 'C12.4')
+M('C12', 'writer-halg-two-octets', FL, "                _bytes.append(self.halg)\n", "                _bytes += self.int_to_bytes(self.halg, 2)\n", 'C12.4')
+M('C12', 'reader-iv-bits', FL, "                self.iv = packet[:(self.encalg.block_size // 8)]\n                del packet[:(self.encalg.block_size // 8)]",
+  "                self.iv = packet[:(self.encalg.block_size // 4)]\n                del packet[:(self.encalg.block_size // 4)]", 'C12.4')
+M('C12', 'copy-decoded-count', FL, "        s2k.count = self._count\n", "        s2k.count = self.count\n", 'C12.4')
+M('C12', 'copy-drops-count', FL, "        s2k.count = self._count\n", "", 'C12.4')
+M('C12', 'reader-count-after-iv', FL, "            if self.specifier == String2KeyType.Iterated:\n                self.count = packet[0]\n                del packet[0]\n\n            if iv:\n                self.iv = packet[:(self.encalg.block_size // 8)]\n                del packet[:(self.encalg.block_size // 8)]",
+  "            if iv:\n                self.iv = packet[:(self.encalg.block_size // 8)]\n                del packet[:(self.encalg.block_size // 8)]\n\n            if self.specifier == String2KeyType.Iterated:\n                self.count = packet[0]\n                del packet[0]", 'C12.4')
 
 # =============================================================================================== C18
 M('C18', 'fp-without-pkalg', PK, "        fp.update(self.int_to_bytes(self.pkalg))\n", "", 'C18.1')
@@ -466,6 +753,71 @@ M('C06', 'unprotect-outside-try', PGP, "        try:\n            for sk in iter
   "        for sk in itertools.chain([self], self.subkeys.values()):\n            sk._key.unprotect(passphrase)\n        try:\n            del passphrase\n            yield self", 'C06.1')
 T('C06', 'twin-clear-helper-var', PGP, "            for sk in itertools.chain([self], self.subkeys.values()):\n                sk._key.keymaterial.clear()", "            for k in itertools.chain([self], self.subkeys.values()):\n                k._key.keymaterial.clear()")
 T('C06', 'twin-keyblob-pt-join', FL, "        pt += hashlib.new('sha1', pt).digest()\n", "        digest = hashlib.new('sha1', pt).digest()\n        pt += digest\n")
+# --- hardening G5: C06 rules on interpreter values / def-use instead of source text
+_UNL_TRY = "        try:\n            for sk in itertools.chain([self], self.subkeys.values()):\n                sk._key.unprotect(passphrase)\n            del passphrase\n            yield self\n\n        finally:\n            # clean up here by deleting the previously decrypted secret key material\n            for sk in itertools.chain([self], self.subkeys.values()):\n                sk._key.keymaterial.clear()"
+T('C06', 'twin-unlock-keys-list', PGP, _UNL_TRY, "        keys = [self] + list(self.subkeys.values())\n        try:\n            for sk in keys:\n                sk._key.unprotect(passphrase)\n            del passphrase\n            yield self\n\n        finally:\n            for sk in keys:\n                sk._key.keymaterial.clear()")
+T('C06', 'twin-unlock-split-primary', PGP, _UNL_TRY, "        try:\n            self._key.unprotect(passphrase)\n            for sk in self.subkeys.values():\n                sk._key.unprotect(passphrase)\n            del passphrase\n            yield self\n\n        finally:\n            self._key.keymaterial.clear()\n            for sub in self._children.values():\n                sub._key.keymaterial.clear()")
+T('C06', 'twin-unlock-clear-temp-kw', PGP, _UNL_TRY, "        try:\n            for sk in (self, *self.subkeys.values()):\n                pkt = sk._key\n                pkt.unprotect(passphrase=passphrase)\n            del passphrase\n            yield self\n\n        finally:\n            for sk in (self, *self.subkeys.values()):\n                km = sk._key.keymaterial\n                km.clear()")
+T('C06', 'twin-unlock-nested-try', PGP, _UNL_TRY, "        try:\n            for sk in itertools.chain([self], self.subkeys.values()):\n                sk._key.unprotect(passphrase)\n            del passphrase\n            try:\n                yield self\n            finally:\n                pass\n\n        finally:\n            for sk in list(itertools.chain([self], self.subkeys.values())):\n                sk._key.keymaterial.clear()")
+T('C06', 'twin-unlock-helpers', PGP, _UNL_TRY, "        try:\n            self._unprotect_all(passphrase)\n            del passphrase\n            yield self\n\n        finally:\n            self._relock()",
+  more=[(PGP, "    @contextlib.contextmanager\n    def unlock(self, passphrase):\n", "    def _unprotect_all(self, passphrase):\n        for sk in itertools.chain([self], self.subkeys.values()):\n            sk._key.unprotect(passphrase)\n\n    def _relock(self):\n        for sk in itertools.chain([self], self.subkeys.values()):\n            sk._key.keymaterial.clear()\n\n    @contextlib.contextmanager\n    def unlock(self, passphrase):\n")])
+M('C06', 'unlock-helper-relocks-subkeys-only', PGP, _UNL_TRY, "        try:\n            for sk in itertools.chain([self], self.subkeys.values()):\n                sk._key.unprotect(passphrase)\n            del passphrase\n            yield self\n\n        finally:\n            self._relock()", 'C06.1',
+  more=[(PGP, "    @contextlib.contextmanager\n    def unlock(self, passphrase):\n", "    def _relock(self):\n        for sk in self.subkeys.values():\n            sk._key.keymaterial.clear()\n\n    @contextlib.contextmanager\n    def unlock(self, passphrase):\n")])
+M('C06', 'unlock-chain-reused', PGP, _UNL_TRY, "        keys = itertools.chain([self], self.subkeys.values())\n        try:\n            for sk in keys:\n                sk._key.unprotect(passphrase)\n            del passphrase\n            yield self\n\n        finally:\n            for sk in keys:\n                sk._key.keymaterial.clear()", 'C06.1')
+M('C06', 'unlock-subkeys-cleared-on-success-only', PGP, _UNL_TRY, "        try:\n            for sk in itertools.chain([self], self.subkeys.values()):\n                sk._key.unprotect(passphrase)\n            del passphrase\n            yield self\n            for sk in self.subkeys.values():\n                sk._key.keymaterial.clear()\n\n        finally:\n            self._key.keymaterial.clear()", 'C06.1')
+M('C06', 'unlock-clear-subkeys-only', PGP, "            for sk in itertools.chain([self], self.subkeys.values()):\n                sk._key.keymaterial.clear()", "            for sk in self.subkeys.values():\n                sk._key.keymaterial.clear()", 'C06.1')
+M('C06', 'unlock-except-pgperror-only', PGP, _UNL_TRY, "        try:\n            for sk in itertools.chain([self], self.subkeys.values()):\n                sk._key.unprotect(passphrase)\n            del passphrase\n            yield self\n\n        except PGPError:\n            for sk in itertools.chain([self], self.subkeys.values()):\n                sk._key.keymaterial.clear()\n            raise\n\n        for sk in itertools.chain([self], self.subkeys.values()):\n            sk._key.keymaterial.clear()", 'C06.1')
+M('C06', 'unlock-unprotect-not-delegating', PK, "    def unprotect(self, passphrase):\n        self.keymaterial.decrypt_keyblob(passphrase)\n", "    def unprotect(self, passphrase):\n        if self.keymaterial.s2k.usage == 255:\n            self.keymaterial.decrypt_keyblob(passphrase)\n", 'C06.1')
+_CLEAR = "        for field in self.__privfields__:\n            delattr(self, field)\n            setattr(self, field, MPI(0))\n\n\nclass OpaquePrivKey"
+T('C06', 'twin-clear-no-delattr', FL, _CLEAR, "        zero = MPI(0)\n        for name in self.__privfields__:\n            setattr(self, name, zero)\n\n\nclass OpaquePrivKey")
+T('C06', 'twin-clear-comprehension', FL, _CLEAR, "        [setattr(self, f, MPI(0)) for f in self.__privfields__]\n\n\nclass OpaquePrivKey")
+M('C06', 'clear-only-when-protected', FL, _CLEAR, "        if not self.s2k:\n            return\n        for field in self.__privfields__:\n            delattr(self, field)\n            setattr(self, field, MPI(0))\n\n\nclass OpaquePrivKey", 'C06.2')
+M('C06', 'clear-pubfields', FL, _CLEAR, "        for field in self.__pubfields__:\n            delattr(self, field)\n            setattr(self, field, MPI(0))\n\n\nclass OpaquePrivKey", 'C06.2')
+M('C06', 'blob-kept-renamed-local', FL, "        kb = super(DSAPriv, self).decrypt_keyblob(passphrase)\n        del passphrase\n\n        self.x = MPI(kb)\n",
+  "        blob = super(DSAPriv, self).decrypt_keyblob(passphrase)\n        del passphrase\n        kb = blob\n        self._plain = bytes(blob)\n\n        self.x = MPI(kb)\n", 'C06.2')
+M('C06', 'secret-int-kept-via-temp', FL, "    def _compute_chksum(self):\n        chs = sum(bytearray(self.x.to_mpibytes())) % 65536\n        self.chksum = bytearray(self.int_to_bytes(chs, 2))\n\n    def _generate(self, key_size):\n        if any(c != 0 for c in self):  # pragma: no cover\n            raise PGPError(\"key is already populated\")\n",
+  "    def _compute_chksum(self):\n        raw = self.x.to_mpibytes()\n        self._mpicache = raw\n        chs = sum(bytearray(raw)) % 65536\n        self.chksum = bytearray(self.int_to_bytes(chs, 2))\n\n    def _generate(self, key_size):\n        if any(c != 0 for c in self):  # pragma: no cover\n            raise PGPError(\"key is already populated\")\n", 'C06.2')
+M('C06', 'privkey-cached-in-dict', FL, "        s = self.int_to_bytes(self.s, (self.oid.key_size + 7) // 8)\n        return ed25519.Ed25519PrivateKey.from_private_bytes(s)",
+  "        if '_pk' not in self.__dict__:\n            s = self.int_to_bytes(self.s, (self.oid.key_size + 7) // 8)\n            self.__dict__['_pk'] = ed25519.Ed25519PrivateKey.from_private_bytes(s)\n        return self.__dict__['_pk']", 'C06.2')
+_KB_PT = "        pt = bytearray()\n        for pf in self.__privfields__:\n            pt += getattr(self, pf).to_mpibytes()\n\n        # append a SHA-1 hash of the plaintext so far to the plaintext\n        pt += hashlib.new('sha1', pt).digest()\n\n        # encrypt\n        self.encbytes = bytearray(_encrypt(bytes(pt), bytes(sessionkey), enc_alg, bytes(self.s2k.iv)))\n\n        # delete pt and clear self\n        del pt\n        self.clear()"
+T('C06', 'twin-keyblob-join-temps', FL, _KB_PT, "        secret = bytearray().join([getattr(self, name).to_mpibytes() for name in self.__privfields__])\n        trailer = hashlib.new('sha1', secret).digest()\n        plaintext = secret + trailer\n        ciphertext = _encrypt(bytes(plaintext), key=bytes(sessionkey), alg=enc_alg, iv=bytes(self.s2k.iv))\n        self.encbytes = bytearray(ciphertext)\n        del secret, trailer, plaintext\n        self.clear()")
+T('C06', 'twin-keyblob-sha1-update', FL, "        pt += hashlib.new('sha1', pt).digest()\n", "        sha = hashlib.new('sha1')\n        sha.update(pt)\n        pt += sha.digest()\n")
+T('C06', 'twin-keyblob-iv-temp', FL, "        self.s2k.iv = enc_alg.gen_iv()\n", "        iv = enc_alg.gen_iv()\n        self.s2k.iv = iv\n",
+  more=[(FL, "bytearray(_encrypt(bytes(pt), bytes(sessionkey), enc_alg, bytes(self.s2k.iv)))", "bytearray(_encrypt(bytes(pt), bytes(sessionkey), enc_alg, bytes(iv)))")])
+T('C06', 'twin-keyblob-s2k-alias', FL, "        self.s2k.usage = 254\n        self.s2k.encalg = enc_alg\n        self.s2k.specifier = String2KeyType.Iterated\n        self.s2k.iv = enc_alg.gen_iv()\n        self.s2k.halg = hash_alg\n        self.s2k.salt = bytearray(os.urandom(8))\n        self.s2k.count = hash_alg.tuned_count\n",
+  "        s2k = self.s2k\n        s2k.usage = 254\n        s2k.encalg = enc_alg\n        s2k.specifier = String2KeyType.Iterated\n        s2k.iv = enc_alg.gen_iv()\n        s2k.halg = hash_alg\n        s2k.salt = bytearray(os.urandom(8))\n        s2k.count = hash_alg.tuned_count\n",
+  more=[(FL, "        sessionkey = self.s2k.derive_key(passphrase)\n        del passphrase\n\n        pt = bytearray()\n        for pf in self.__privfields__:\n            pt += getattr(self, pf).to_mpibytes()\n", "        sessionkey = s2k.derive_key(passphrase)\n        del passphrase\n\n        pt = bytearray(b''.join(getattr(self, pf).to_mpibytes() for pf in self.__privfields__))\n")])
+T('C06', 'twin-decrypt-nested-checks', FL, "        if self.s2k.usage == 254 and not pt[-20:] == hashlib.new('sha1', pt[:-20]).digest():\n            # if the usage byte is 254, key material is followed by a 20-octet sha-1 hash of the rest\n            # of the key material block\n            raise PGPDecryptionError(\"Passphrase was incorrect!\")\n",
+  "        if self.s2k.usage == 254:\n            body, trailer = pt[:-20], pt[-20:]\n            if trailer != hashlib.new('sha1', body).digest():\n                raise PGPDecryptionError(\"Passphrase was incorrect!\")\n")
+T('C06', 'twin-keyset-helper', PGP, "        for sk in itertools.chain([self], self.subkeys.values()):\n            sk._key.protect(passphrase, enc_alg, hash_alg)\n\n        del passphrase\n",
+  "        for sk in self._primary_and_subkeys():\n            sk._key.protect(passphrase, enc_alg, hash_alg)\n\n        del passphrase\n\n    def _primary_and_subkeys(self):\n        return itertools.chain([self], self.subkeys.values())\n",
+  more=[(PGP, "            for sk in itertools.chain([self], self.subkeys.values()):\n                sk._key.unprotect(passphrase)\n", "            for sk in self._primary_and_subkeys():\n                sk._key.unprotect(passphrase)\n"),
+        (PGP, "            for sk in itertools.chain([self], self.subkeys.values()):\n                sk._key.keymaterial.clear()", "            for sk in self._primary_and_subkeys():\n                sk._key.keymaterial.clear()")])
+M('C06', 'keyblob-fresh-iv-not-stored', FL, "bytearray(_encrypt(bytes(pt), bytes(sessionkey), enc_alg, bytes(self.s2k.iv)))", "bytearray(_encrypt(bytes(pt), bytes(sessionkey), enc_alg, bytes(enc_alg.gen_iv())))", 'C06.3')
+M('C06', 'keyblob-salt-after-derive', FL, "        self.s2k.salt = bytearray(os.urandom(8))\n        self.s2k.count = hash_alg.tuned_count\n", "        self.s2k.count = hash_alg.tuned_count\n", 'C06.3',
+  more=[(FL, "        sessionkey = self.s2k.derive_key(passphrase)\n        del passphrase\n\n        pt = bytearray()", "        sessionkey = self.s2k.derive_key(passphrase)\n        self.s2k.salt = bytearray(os.urandom(8))\n        del passphrase\n\n        pt = bytearray()")])
+M('C06', 'keyblob-sha1-of-first-field', FL, "            pt += getattr(self, pf).to_mpibytes()\n\n        # append a SHA-1 hash of the plaintext so far to the plaintext\n        pt += hashlib.new('sha1', pt).digest()\n",
+  "            pt += getattr(self, pf).to_mpibytes()\n\n        pt += hashlib.new('sha1', getattr(self, self.__privfields__[0]).to_mpibytes()).digest()\n", 'C06.3')
+_PKT_PROTECT = "        self.keymaterial.encrypt_keyblob(passphrase, enc_alg, hash_alg)\n        del passphrase\n        self.update_hlen()\n"
+T('C06', 'twin-pkt-protect-kw', PK, _PKT_PROTECT, "        km = self.keymaterial\n        km.encrypt_keyblob(passphrase, hash_alg=hash_alg, enc_alg=enc_alg)\n        del passphrase\n        self.update_hlen()\n")
+M('C06', 'pkt-protect-no-hlen', PK, _PKT_PROTECT, "        self.keymaterial.encrypt_keyblob(passphrase, enc_alg, hash_alg)\n        del passphrase\n", 'C06.3')
+M('C06', 'pkt-protect-hlen-first', PK, _PKT_PROTECT, "        self.update_hlen()\n        self.keymaterial.encrypt_keyblob(passphrase, enc_alg, hash_alg)\n        del passphrase\n", 'C06.3')
+M('C06', 'pkt-protect-algs-swapped', PK, _PKT_PROTECT, "        self.keymaterial.encrypt_keyblob(passphrase, hash_alg, enc_alg)\n        del passphrase\n        self.update_hlen()\n", 'C06.3')
+_KEY_PROTECT = "        for sk in itertools.chain([self], self.subkeys.values()):\n            sk._key.protect(passphrase, enc_alg, hash_alg)\n"
+T('C06', 'twin-key-protect-list', PGP, _KEY_PROTECT, "        self._key.protect(passphrase, enc_alg, hash_alg)\n        for sub in list(self.subkeys.values()):\n            sub._key.protect(passphrase, enc_alg=enc_alg, hash_alg=hash_alg)\n")
+M('C06', 'key-protect-primary-only', PGP, _KEY_PROTECT, "        self._key.protect(passphrase, enc_alg, hash_alg)\n", 'C06.3')
+M('C06', 'key-protect-subkeys-only', PGP, _KEY_PROTECT, "        for sk in self.subkeys.values():\n            sk._key.protect(passphrase, enc_alg, hash_alg)\n", 'C06.3')
+T('C06', 'twin-decrypt-chk-mask', FL, "(sum(bytearray(pt[:-2])) % 65536):  # pragma: no cover", "(sum(bytearray(pt[:-2])) & 0xFFFF):  # pragma: no cover")
+T('C06', 'twin-decrypt-s2k-bool', FL, "        if not self.s2k:  # pragma: no cover\n            # not encrypted\n            return\n", "        if bool(self.s2k) is False:  # pragma: no cover\n            return\n".replace('bool(self.s2k) is False', 'not bool(self.s2k)'))
+T('C06', 'twin-subclass-super-kw', FL, "        kb = super(DSAPriv, self).decrypt_keyblob(passphrase)\n        del passphrase\n\n        self.x = MPI(kb)\n", "        blob = super().decrypt_keyblob(passphrase=passphrase)\n        del passphrase\n\n        x = MPI(blob)\n        self.x = x\n        kb = blob\n")
+M('C06', 'sha1-guard-warns', FL, "        if self.s2k.usage == 254 and not pt[-20:] == hashlib.new('sha1', pt[:-20]).digest():\n            # if the usage byte is 254, key material is followed by a 20-octet sha-1 hash of the rest\n            # of the key material block\n            raise PGPDecryptionError(\"Passphrase was incorrect!\")\n",
+  "        if self.s2k.usage == 254 and not pt[-20:] == hashlib.new('sha1', pt[:-20]).digest():\n            warnings.warn(\"Passphrase was incorrect!\")\n", 'C06.4')
+M('C06', 'sha1-guard-19', FL, "not pt[-20:] == hashlib.new('sha1', pt[:-20]).digest():", "not pt[-19:] == hashlib.new('sha1', pt[:-20]).digest()[1:]:", 'C06.4')
+M('C06', 'subclass-store-from-ciphertext', FL, "        kb = super(ElGPriv, self).decrypt_keyblob(passphrase)\n        del passphrase\n\n        self.x = MPI(kb)\n", "        kb = super(ElGPriv, self).decrypt_keyblob(passphrase)\n        del passphrase\n\n        self.x = MPI(bytearray(self.encbytes))\n", 'C06.4')
+T('C06', 'twin-export-swapped-arms', FL, "        if self.s2k:\n            _bytes += self.encbytes\n\n        else:\n            for field in self.__privfields__:\n                _bytes += getattr(self, field).to_mpibytes()",
+  "        if not self.s2k:\n            _bytes += b''.join(getattr(self, field).to_mpibytes() for field in self.__privfields__)\n\n        else:\n            _bytes += self.encbytes")
+M('C06', 'export-private-on-usage', FL, "        if self.s2k:\n            _bytes += self.encbytes\n\n        else:\n            for field in self.__privfields__:\n                _bytes += getattr(self, field).to_mpibytes()",
+  "        if self.s2k and self.encbytes:\n            _bytes += self.encbytes\n\n        else:\n            for field in self.__privfields__:\n                _bytes += getattr(self, field).to_mpibytes()", 'C06.5')
 
 # =============================================================================================== C10
 M('C10', 'crc-init', TY, "    __crc24_init = 0x0B704CE", "    __crc24_init = 0x0B704CF", 'C10.1')
@@ -531,6 +883,249 @@ M('C09', 'int-to-bytes-little', TY, "        blen = max(minlen, PGPObject.int_by
 M('C09', 'type-map', PT, "{1: 0, 2: 1, 4: 2, 0: 3}[self.llen]", "{1: 0, 2: 1, 4: 3, 0: 2}[self.llen]", 'C09.2')
 T('C09', 'twin-thresholds-flipped', TY, "            if 192 > nl:\n                return Header.int_to_bytes(nl)", "            if nl < 192:\n                return Header.int_to_bytes(nl)")
 T('C09', 'twin-widen-form', TY, "            while 0 < llen < 4 and self.length >= (1 << (8 * llen)):", "            while 0 < llen < 4 and self.length > (1 << (8 * llen)) - 1:")
+
+# --- C09 hardening: behaviour-preserving rewrites of every anchored codec (must stay silent) ...
+_ENC = ("        def _new_length(nl):\n            if 192 > nl:\n                return Header.int_to_bytes(nl)\n\n            elif 8384 > nl:\n"
+        "                elen = ((nl & 0xFF00) + (192 << 8)) + ((nl & 0xFF) - 192)\n                return Header.int_to_bytes(elen, 2)\n\n"
+        "            return b'\\xFF' + Header.int_to_bytes(nl, 4)\n\n        def _old_length(nl, llen):\n"
+        "            return Header.int_to_bytes(nl, llen) if llen > 0 else b''\n\n        return _new_length(length) if nhf else _old_length(length, llen)\n")
+T('C09', 'twin-enc-flat-high-low', TY, _ENC,
+  "        if not nhf:\n            if llen > 0:\n                return Header.int_to_bytes(length, llen)\n            return b''\n\n        if 192 > length:\n"
+  "            return Header.int_to_bytes(length)\n\n        if 8384 > length:\n            high = (length & 0xFF00) + (192 << 8)\n            low = (length & 0xFF) - 192\n"
+  "            return Header.int_to_bytes(high + low, 2)\n\n        return b'\\xFF' + Header.int_to_bytes(length, 4)\n")
+T('C09', 'twin-enc-divmod-bytes', TY, _ENC,
+  "        if not nhf:\n            return length.to_bytes(max(llen, (length.bit_length() + 7) // 8), 'big') if llen > 0 else b''\n        if length < 192:\n"
+  "            return bytes([length])\n        if length < 8384:\n            hi, lo = divmod(length - 192, 256)\n            return bytes([hi + 192, lo])\n"
+  "        return struct.pack('>BI', 0xFF, length) if length < (1 << 32) else b'\\xFF' + Header.int_to_bytes(length, 4)\n",
+  more=[(TY, "import abc\n", "import abc\nimport struct\n")])
+_PARSE_LEN_CALLS = "            part_len, size, partial = _parse_len(b)\n            del b[:size]\n\n            if partial:\n                total = part_len\n                while partial:\n                    part_len, size, partial = _parse_len(b, total)\n                    del b[total:total + size]\n                    total += part_len\n                self._len = total\n            else:\n                self._len = part_len\n"
+T('C09', 'twin-dec-merged-tail', TY, _PARSE_LEN_CALLS,
+  "            total, size, partial = _parse_len(b)\n            del b[:size]\n\n            while partial:\n                part_len, size, partial = _parse_len(b, total)\n"
+  "                del b[total:total + size]\n                total += part_len\n\n            self._len = total\n")
+T('C09', 'twin-dec-while-true', TY, _PARSE_LEN_CALLS,
+  "            chunk, width, more = _parse_len(b)\n            del b[:width]\n            body = chunk\n            while True:\n                if not more:\n                    break\n"
+  "                chunk, width, more = _parse_len(b, body)\n                del b[body:body + width]\n                body = body + chunk\n            self._len = body\n")
+T('C09', 'twin-dec-partial-sub', TY, "                    return (1 << (fo & 0x1f), 1, True)", "                    return (2 ** (fo - 224), 1, True)")
+T('C09', 'twin-dec-two-octet-rfc-form', TY, "                    dlen = self.bytes_to_int(b[offset:offset + 2])\n                    return (((dlen - (192 << 8)) & 0xFF00) + ((dlen & 0xFF) + 192), 2, False)",
+  "                    return (((fo - 192) << 8) + b[offset + 1] + 192, 2, False)")
+T('C09', 'twin-dec-from-bytes', TY, "                    return (self.bytes_to_int(b[offset + 1:offset + 5]), 5, False)", "                    return (int.from_bytes(b[offset + 1:offset + 5], 'big'), 5, False)")
+T('C09', 'twin-llen-from-encoder', TY, "            if 192 > self.length:\n                return 1\n\n            elif 8384 > self.length:  # >= 192 is implied\n                return 2\n\n            else:\n                return 5\n",
+  "            return len(self.encode_length(self.length))\n")
+T('C09', 'twin-llen-old-ifs', TY, "            llen = self._llen\n            while 0 < llen < 4 and self.length >= (1 << (8 * llen)):\n                llen *= 2\n            return llen",
+  "            width = self._llen\n            if width == 1 and self.length > 0xFF:\n                width = 2\n            if width == 2 and self.length > 0xFFFF:\n                width = 4\n            return width")
+T('C09', 'twin-lenmap-class-consts', TY, "            self._llen = {0: 1, 1: 2, 2: 4, 3: 0}[val]", "            self._llen = self._LENTYPE_TO_LLEN[val]",
+  more=[(TY, "class Header(Field):\n    @staticmethod\n    def encode_length", "class Header(Field):\n    _LENTYPE_TO_LLEN = {0: 1, 1: 2, 2: 4, 3: 0}\n\n    @staticmethod\n    def encode_length"),
+        (PT, "        tag |= (self.tag) if self._lenfmt else ((self.tag << 2) | {1: 0, 2: 1, 4: 2, 0: 3}[self.llen])\n\n        _bytes = bytearray(self.int_to_bytes(tag))\n        _bytes += self.encode_length(self.length, self._lenfmt, self.llen)\n        return _bytes",
+         "        if self._lenfmt:\n            tag |= self.tag\n        else:\n            tag |= (self.tag << 2) | self._LLEN_TO_LENTYPE[self.llen]\n\n        return bytearray(self.int_to_bytes(tag)) + self.encode_length(self.length, self._lenfmt, self.llen)"),
+        (PT, "    def __bytearray__(self):\n        tag = 0x80 | (self._lenfmt << 6)", "    _LLEN_TO_LENTYPE = {1: 0, 2: 1, 4: 2, 0: 3}\n\n    def __bytearray__(self):\n        tag = 0x80 | (self._lenfmt << 6)")])
+T('C09', 'twin-lentype-arith', PT, "{1: 0, 2: 1, 4: 2, 0: 3}[self.llen]", "(self.llen.bit_length() - 1) % 4")
+T('C09', 'twin-old-len-local-width', TY, "            if self.llen > 0:\n                self._len = self.bytes_to_int(b[:self.llen])\n                del b[:self.llen]\n",
+  "            width = self.llen\n            if width > 0:\n                field = b[:width]\n                del b[:width]\n                self._len = self.bytes_to_int(field)\n")
+T('C09', 'twin-packet-parse-first-octet', PT, "        self._lenfmt = ((packet[0] & 0x40) >> 6)\n        self.tag = packet[0]\n        if self._lenfmt == 0:\n            self.llen = (packet[0] & 0x03)\n        del packet[0]\n\n        if (self._lenfmt == 0 and self.llen > 0) or self._lenfmt == 1:\n            self.length = packet\n\n        else:\n            # indeterminate packet length\n            self.length = len(packet)",
+  "        first_octet = packet[0]\n        self._lenfmt = (first_octet >> 6) & 1\n        self.tag = first_octet\n        if self._lenfmt == 0:\n            self.llen = first_octet % 4\n        del packet[0]\n\n        has_length_field = self._lenfmt == 1 or (self._lenfmt == 0 and self.llen > 0)\n        if not has_length_field:\n            self.length = len(packet)\n\n        else:\n            self.length = packet")
+T('C09', 'twin-tag-int-if-shift', PT, "        _tag = (val & 0x3F) if self._lenfmt else ((val & 0x3C) >> 2)", "        if self._lenfmt:\n            _tag = val % 64\n        else:\n            _tag = (val >> 2) & 0x0F")
+T('C09', 'twin-packet-header-append', PT, "        _bytes = bytearray(self.int_to_bytes(tag))\n        _bytes += self.encode_length(self.length, self._lenfmt, self.llen)\n        return _bytes",
+  "        _bytes = bytearray()\n        _bytes.append(tag)\n        _bytes.extend(self.encode_length(self.length, nhf=self._lenfmt, llen=self.llen))\n        return _bytes")
+T('C09', 'twin-mpi-readable', PT, "        mpi = num\n\n        if isinstance(num, (bytes, bytearray)):\n            if isinstance(num, bytes):  # pragma: no cover\n                num = bytearray(num)\n\n            fl = ((MPIs.bytes_to_int(num[:2]) + 7) // 8)\n            del num[:2]\n\n            mpi = MPIs.bytes_to_int(num[:fl])\n            del num[:fl]\n\n        return super(MPI, cls).__new__(cls, mpi)",
+  "        value = num\n\n        if isinstance(num, (bytes, bytearray)):\n            if isinstance(num, bytes):  # pragma: no cover\n                num = bytearray(num)\n\n            nbits = MPIs.bytes_to_int(num[:2])\n            nbytes = -(-nbits // 8)\n            del num[:2]\n\n            value = int.from_bytes(num[:nbytes], 'big')\n            del num[:nbytes]\n\n        return super(MPI, cls).__new__(cls, value)")
+T('C09', 'twin-mpi-writer-temps', PT, "        return MPIs.int_to_bytes(self.bit_length(), 2) + MPIs.int_to_bytes(self, self.byte_length())",
+  "        bit_count = MPIs.int_to_bytes(self.bit_length(), minlen=2)\n        magnitude = MPIs.int_to_bytes(self, minlen=self.byte_length())\n        return bit_count + magnitude")
+T('C09', 'twin-mpi-bytelen-shift', PT, "        return ((self.bit_length() + 7) // 8)", "        return (self.bit_length() + 7) >> 3")
+T('C09', 'twin-count-temps', FL, "        return (16 + (self._count & 15)) << ((self._count >> 4) + 6)", "        coded = self._count\n        mantissa = 16 + (coded & 15)\n        exponent = (coded >> 4) + 6\n        return mantissa << exponent",
+  more=[(FL, "        if val < 0 or val > 255:  # pragma: no cover", "        if not (0 <= val <= 255):  # pragma: no cover")])
+T('C09', 'twin-time-temps-kw', SS, "        _bytes += self.int_to_bytes(calendar.timegm(self.created.utctimetuple()), 4)", "        utc_tuple = self.created.utctimetuple()\n        seconds = calendar.timegm(utc_tuple)\n        _bytes += self.int_to_bytes(seconds, minlen=4)",
+  more=[(SS, "    def created_int(self, val):\n        self.created = datetime.fromtimestamp(val, timezone.utc)", "    def created_int(self, seconds):\n        when = datetime.fromtimestamp(seconds, tz=timezone.utc)\n        self.created = when"),
+        (SS, "    def created_bytearray(self, val):\n        self.created = self.bytes_to_int(val)", "    def created_bytearray(self, octets):\n        seconds = self.bytes_to_int(octets)\n        self.created = seconds")])
+T('C09', 'twin-time-reader-utcfrom-replace', PK, "    def mtime_int(self, val):\n        self.mtime = datetime.fromtimestamp(val, timezone.utc)", "    def mtime_int(self, val):\n        self.mtime = datetime.utcfromtimestamp(val).replace(tzinfo=timezone.utc)")
+T('C09', 'twin-expiry-temp', SS, "        _bytes += self.int_to_bytes(int(self.expires.total_seconds()), 4)", "        seconds = int(self.expires.total_seconds())\n        _bytes += self.int_to_bytes(seconds, minlen=4)")
+T('C09', 'twin-subheader-temps', ST, "        _bytes = bytearray(self.encode_length(self.length))\n        _bytes += self.int_to_bytes((int(self.critical) << 7) + self.typeid)\n        return _bytes",
+  "        _bytes = bytearray(self.encode_length(self.length))\n        critical_bit = 0x80 if self.critical else 0\n        return _bytes + bytes([critical_bit | self.typeid])")
+T('C09', 'twin-subheader-typeid-bin', ST, "        v = self.bytes_to_int(val)\n        self.typeid = v\n        self.critical = bool(v & 0x80)", "        octet = val[0]\n        self.critical = octet >= 0x80\n        self.typeid = octet")
+T('C09', 'twin-subheader-parse-pop', ST, "        self.typeid = packet[:1]\n        del packet[:1]", "        type_octet = packet[:1]\n        del packet[0]\n        self.typeid = type_octet")
+T('C09', 'twin-int-to-bytes-ifs', TY, "        blen = max(minlen, PGPObject.int_byte_len(i), 1)\n\n        return i.to_bytes(blen, order)",
+  "        blen = PGPObject.int_byte_len(i)\n        if blen < minlen:\n            blen = minlen\n        if blen < 1:\n            blen = 1\n        return i.to_bytes(blen, byteorder=order)")
+T('C09', 'twin-int-byte-len-ceil', TY, "        return (i.bit_length() + 7) // 8", "        return -(-i.bit_length() // 8)")
+
+# --- ... and defects of the same constructs (each must be reported)
+M('C09', 'enc-five-octet-prefix', TY, "            return b'\\xFF' + Header.int_to_bytes(nl, 4)", "            return b'\\xFE' + Header.int_to_bytes(nl, 4)", 'C09.1')
+M('C09', 'enc-five-octet-width-3', TY, "            return b'\\xFF' + Header.int_to_bytes(nl, 4)", "            return b'\\xFF' + Header.int_to_bytes(nl, 3)", 'C09.1')
+M('C09', 'enc-two-octet-le-192', TY, "            if 192 > nl:\n                return Header.int_to_bytes(nl)", "            if 192 >= nl:\n                return Header.int_to_bytes(nl)", 'C09.1')
+M('C09', 'enc-two-octet-mask', TY, "                elen = ((nl & 0xFF00) + (192 << 8)) + ((nl & 0xFF) - 192)", "                elen = ((nl & 0x0F00) + (192 << 8)) + ((nl & 0xFF) - 192)", 'C09.1')
+M('C09', 'dec-five-reads-3', TY, "                    return (self.bytes_to_int(b[offset + 1:offset + 5]), 5, False)", "                    return (self.bytes_to_int(b[offset + 1:offset + 4]), 5, False)", 'C09.1')
+M('C09', 'dec-five-size-4', TY, "                    return (self.bytes_to_int(b[offset + 1:offset + 5]), 5, False)", "                    return (self.bytes_to_int(b[offset + 1:offset + 5]), 4, False)", 'C09.1')
+M('C09', 'dec-two-size-1', TY, "((dlen & 0xFF) + 192), 2, False)", "((dlen & 0xFF) + 192), 1, False)", 'C09.1')
+M('C09', 'dec-partial-2-shl', TY, "                    return (1 << (fo & 0x1f), 1, True)", "                    return (2 << (fo & 0x1f), 1, True)", 'C09.1')
+M('C09', 'dec-partial-not-flagged', TY, "                    return (1 << (fo & 0x1f), 1, True)", "                    return (1 << (fo & 0x1f), 1, False)", 'C09.1')
+M('C09', 'dec-255-is-partial', TY, "                elif 255 > fo:  # >= 224 is implied", "                elif 255 >= fo:  # >= 224 is implied", 'C09.1')
+M('C09', 'llen-five-as-4', TY, "            else:\n                return 5\n", "            else:\n                return 4\n", 'C09.1')
+M('C09', 'llen-192-boundary', TY, "            if 192 > self.length:\n                return 1", "            if 192 >= self.length:\n                return 1", 'C09.1')
+M('C09', 'old-widen-stops-at-2', TY, "            while 0 < llen < 4 and self.length >= (1 << (8 * llen)):", "            while 0 < llen < 2 and self.length >= (1 << (8 * llen)):", 'C09.2')
+M('C09', 'old-widen-plus-1', TY, "                llen *= 2\n            return llen", "                llen += 1\n            return llen", 'C09.2')
+M('C09', 'old-widen-bits-7', TY, "            while 0 < llen < 4 and self.length >= (1 << (8 * llen)):", "            while 0 < llen < 4 and self.length >= (1 << (7 * llen)):", 'C09.2')
+M('C09', 'old-reader-map', TY, "            self._llen = {0: 1, 1: 2, 2: 4, 3: 0}[val]", "            self._llen = {0: 1, 1: 2, 2: 4, 3: 1}[val]", 'C09.2')
+M('C09', 'old-reader-no-consume', TY, "                self._len = self.bytes_to_int(b[:self.llen])\n                del b[:self.llen]\n", "                self._len = self.bytes_to_int(b[:self.llen])\n", 'C09.2')
+M('C09', 'old-reader-consume-1', TY, "                del b[:self.llen]\n", "                del b[:1]\n", 'C09.2')
+M('C09', 'old-enc-ge-0', TY, "            return Header.int_to_bytes(nl, llen) if llen > 0 else b''", "            return Header.int_to_bytes(nl, llen) if llen >= 0 else b''", 'C09.2')
+M('C09', 'old-writer-width-from-parsed', PT, "        _bytes += self.encode_length(self.length, self._lenfmt, self.llen)", "        _bytes += self.encode_length(self.length, self._lenfmt, self._llen)", 'C09.2')
+M('C09', 'mpi-count-consume-1', PT, "            fl = ((MPIs.bytes_to_int(num[:2]) + 7) // 8)\n            del num[:2]", "            fl = ((MPIs.bytes_to_int(num[:2]) + 7) // 8)\n            del num[:1]", 'C09.3')
+M('C09', 'mpi-magnitude-not-consumed', PT, "            mpi = MPIs.bytes_to_int(num[:fl])\n            del num[:fl]\n", "            mpi = MPIs.bytes_to_int(num[:fl])\n", 'C09.3')
+M('C09', 'mpi-floor', PT, "            fl = ((MPIs.bytes_to_int(num[:2]) + 7) // 8)", "            fl = (MPIs.bytes_to_int(num[:2]) // 8)", 'C09.3')
+M('C09', 'mpi-writer-count-1-octet', PT, "        return MPIs.int_to_bytes(self.bit_length(), 2) + MPIs.int_to_bytes(self, self.byte_length())", "        return MPIs.int_to_bytes(self.bit_length(), 1) + MPIs.int_to_bytes(self, self.byte_length())", 'C09.3')
+M('C09', 'mpi-writer-byte-count', PT, "        return MPIs.int_to_bytes(self.bit_length(), 2) + MPIs.int_to_bytes(self, self.byte_length())", "        return MPIs.int_to_bytes(self.byte_length(), 2) + MPIs.int_to_bytes(self, self.byte_length())", 'C09.3')
+M('C09', 'mpi-len-plus-1', PT, "        return self.byte_length() + 2", "        return self.byte_length() + 1", 'C09.3')
+M('C09', 'count-mask-7', FL, "        return (16 + (self._count & 15)) << ((self._count >> 4) + 6)", "        return (16 + (self._count & 7)) << ((self._count >> 4) + 6)", 'C09.4')
+M('C09', 'count-shift-3', FL, "        return (16 + (self._count & 15)) << ((self._count >> 4) + 6)", "        return (16 + (self._count & 15)) << ((self._count >> 3) + 6)", 'C09.4')
+M('C09', 'count-setter-256', FL, "        if val < 0 or val > 255:  # pragma: no cover", "        if val < 0 or val > 256:  # pragma: no cover", 'C09.4')
+M('C09', 'count-setter-negative', FL, "        if val < 0 or val > 255:  # pragma: no cover", "        if val > 255:  # pragma: no cover", 'C09.4')
+M('C09', 'time-mktime', PK, "        _bytes += self.int_to_bytes(calendar.timegm(self.created.utctimetuple()), 4)", "        _bytes += self.int_to_bytes(int(time.mktime(self.created.utctimetuple())), 4)", 'C09.5')
+M('C09', 'time-temp-timetuple', PK, "        fp.update(self.int_to_bytes(calendar.timegm(self.created.utctimetuple()), 4))", "        tt = self.created.timetuple()\n        fp.update(self.int_to_bytes(calendar.timegm(tt), 4))", 'C09.5')
+M('C09', 'reader-utcfromtimestamp-naive', SS, "    def created_int(self, val):\n        self.created = datetime.fromtimestamp(val, timezone.utc)", "    def created_int(self, val):\n        self.created = datetime.utcfromtimestamp(val)", 'C09.5')
+M('C09', 'reader-bytes-3', PK, "    def mtime_bin(self, val):\n        self.mtime = self.bytes_to_int(val)", "    def mtime_bin(self, val):\n        self.mtime = self.bytes_to_int(val[:3])", 'C09.5')
+M('C09', 'expiry-2-octets', SS, "        _bytes += self.int_to_bytes(int(self.expires.total_seconds()), 4)", "        _bytes += self.int_to_bytes(int(self.expires.total_seconds()), 2)", 'C09.5')
+M('C09', 'sub-critical-mask-40', ST, "        self.critical = bool(v & 0x80)", "        self.critical = bool(v & 0x40)", 'C09.6')
+M('C09', 'sub-type-not-consumed', ST, "        self.typeid = packet[:1]\n        del packet[:1]", "        self.typeid = packet[:1]", 'C09.6')
+M('C09', 'sub-len-plus-2', ST, "    def __len__(self):\n        return self.llen + 1", "    def __len__(self):\n        return self.llen + 2", 'C09.6')
+M('C09', 'sub-critical-or-typeid-swapped', ST, "        _bytes += self.int_to_bytes((int(self.critical) << 7) + self.typeid)", "        _bytes += self.int_to_bytes((self.typeid << 1) + int(self.critical))", 'C09.6')
+M('C09', 'int-byte-len-plus-8', TY, "        return (i.bit_length() + 7) // 8", "        return (i.bit_length() + 8) // 8", 'C09.7')
+M('C09', 'bytes-to-int-little', TY, "    def bytes_to_int(b, order='big'):", "    def bytes_to_int(b, order='little'):", 'C09.7')
+M('C09', 'int-to-bytes-default-2', TY, "    def int_to_bytes(i, minlen=1, order='big'):", "    def int_to_bytes(i, minlen=2, order='big'):", 'C09.7')
+M('C09', 'tag-format-bit-5', PT, "        tag = 0x80 | (self._lenfmt << 6)", "        tag = 0x80 | (self._lenfmt << 5)", 'C09.8')
+M('C09', 'parse-format-bit-5', PT, "        self._lenfmt = ((packet[0] & 0x40) >> 6)", "        self._lenfmt = ((packet[0] & 0x20) >> 5)", 'C09.8')
+M('C09', 'parse-lentype-mask-1', PT, "            self.llen = (packet[0] & 0x03)", "            self.llen = (packet[0] & 0x01)", 'C09.8')
+M('C09', 'parse-type3-has-length', PT, "        if (self._lenfmt == 0 and self.llen > 0) or self._lenfmt == 1:", "        if (self._lenfmt == 0 and self.llen >= 0) or self._lenfmt == 1:", 'C09.8')
+M('C09', 'parse-tag-octet-kept', PT, "            self.llen = (packet[0] & 0x03)\n        del packet[0]\n", "            self.llen = (packet[0] & 0x03)\n", 'C09.8')
+M('C09', 'old-tag-mask-38', PT, "        _tag = (val & 0x3F) if self._lenfmt else ((val & 0x3C) >> 2)", "        _tag = (val & 0x3F) if self._lenfmt else ((val & 0x38) >> 2)", 'C09.8')
+M('C09', 'partial-total-overwritten', TY, "                    total += part_len\n                self._len = total", "                    total = part_len\n                self._len = total", 'C09.8')
+M('C09', 'partial-del-at-zero', TY, "                    del b[total:total + size]", "                    del b[:size]", 'C09.8')
+M('C09', 'partial-first-not-counted', TY, "                total = part_len\n                while partial:", "                total = 0\n                while partial:", 'C09.8')
+
+# --- C09: whole-function rewrites (helpers as static methods / one private reader method and a single loop) and defects inside them
+_ENC_DEF = ('    @staticmethod\n'
+    '    def encode_length(length, nhf=True, llen=1):\n'
+    '        def _new_length(nl):\n'
+    '            if 192 > nl:\n'
+    '                return Header.int_to_bytes(nl)\n'
+    '\n'
+    '            elif 8384 > nl:\n'
+    '                elen = ((nl & 0xFF00) + (192 << 8)) + ((nl & 0xFF) - 192)\n'
+    '                return Header.int_to_bytes(elen, 2)\n'
+    '\n'
+    "            return b'\\xFF' + Header.int_to_bytes(nl, 4)\n"
+    '\n'
+    '        def _old_length(nl, llen):\n'
+    "            return Header.int_to_bytes(nl, llen) if llen > 0 else b''\n"
+    '\n'
+    '        return _new_length(length) if nhf else _old_length(length, llen)\n'
+    '\n')
+_ENC_STATIC = ('    _ONE_OCTET_LIMIT = 192\n'
+    '    _TWO_OCTET_LIMIT = 8384\n'
+    '\n'
+    '    @staticmethod\n'
+    '    def _encode_new(n):\n'
+    '        if n < Header._ONE_OCTET_LIMIT:\n'
+    '            return bytes(bytearray([n]))\n'
+    '        if n < Header._TWO_OCTET_LIMIT:\n'
+    '            n -= Header._ONE_OCTET_LIMIT\n'
+    '            return bytes(bytearray([(n >> 8) + 192, n & 0xFF]))\n'
+    "        out = bytearray(b'\\xFF')\n"
+    '        out += Header.int_to_bytes(n, minlen=4)\n'
+    '        return bytes(out)\n'
+    '\n'
+    '    @staticmethod\n'
+    '    def _encode_old(n, width):\n'
+    '        if width <= 0:\n'
+    "            return b''\n"
+    '        return Header.int_to_bytes(n, width)\n'
+    '\n'
+    '    @staticmethod\n'
+    '    def encode_length(length, nhf=True, llen=1):\n'
+    '        if nhf:\n'
+    '            return Header._encode_new(length)\n'
+    '        return Header._encode_old(length, llen)\n'
+    '\n')
+_DEC_DEF = ('    @length.register(bytes)\n'
+    '    @length.register(bytearray)\n'
+    '    def length_bin(self, val):\n'
+    '        def _new_len(b):\n'
+    '            def _parse_len(a, offset=0):\n'
+    '                # returns (the parsed length, size of length field, whether the length was of partial type)\n'
+    '                fo = a[offset]\n'
+    '\n'
+    '                if 192 > fo:\n'
+    '                    return (self.bytes_to_int(a[offset:offset + 1]), 1, False)\n'
+    '\n'
+    '                elif 224 > fo:  # >= 192 is implied\n'
+    '                    dlen = self.bytes_to_int(b[offset:offset + 2])\n'
+    '                    return (((dlen - (192 << 8)) & 0xFF00) + ((dlen & 0xFF) + 192), 2, False)\n'
+    '\n'
+    '                elif 255 > fo:  # >= 224 is implied\n'
+    '                    # this is a partial-length header\n'
+    '                    return (1 << (fo & 0x1f), 1, True)\n'
+    '\n'
+    '                elif 255 == fo:\n'
+    '                    return (self.bytes_to_int(b[offset + 1:offset + 5]), 5, False)\n'
+    '\n'
+    '                else:  # pragma: no cover\n'
+    '                    raise ValueError("Malformed length: 0x{:02x}".format(fo))\n'
+    '\n'
+    '            part_len, size, partial = _parse_len(b)\n'
+    '            del b[:size]\n'
+    '\n'
+    '            if partial:\n'
+    '                total = part_len\n'
+    '                while partial:\n'
+    '                    part_len, size, partial = _parse_len(b, total)\n'
+    '                    del b[total:total + size]\n'
+    '                    total += part_len\n'
+    '                self._len = total\n'
+    '            else:\n'
+    '                self._len = part_len\n'
+    '\n'
+    '        def _old_len(b):\n'
+    '            if self.llen > 0:\n'
+    '                self._len = self.bytes_to_int(b[:self.llen])\n'
+    '                del b[:self.llen]\n'
+    '\n'
+    '            else:  # pragma: no cover\n'
+    '                self._len = 0\n'
+    '\n'
+    '        _new_len(val) if self._lenfmt == 1 else _old_len(val)\n'
+    '\n')
+_DEC_METHOD = ('    def _read_new_length_field(self, buf, at):\n'
+    '        first = buf[at]\n'
+    '        if first < 192:\n'
+    '            return first, 1, False\n'
+    '        if first < 224:\n'
+    '            return ((first - 192) << 8) + buf[at + 1] + 192, 2, False\n'
+    '        if first == 255:\n'
+    '            return self.bytes_to_int(buf[at + 1:at + 5]), 5, False\n'
+    '        return 1 << (first & 0x1F), 1, True\n'
+    '\n'
+    '    @length.register(bytes)\n'
+    '    @length.register(bytearray)\n'
+    '    def length_bin(self, val):\n'
+    '        if self._lenfmt != 1:\n'
+    '            width = self.llen\n'
+    '            self._len = self.bytes_to_int(val[:width]) if width > 0 else 0\n'
+    '            if width > 0:\n'
+    '                del val[:width]\n'
+    '            return\n'
+    '\n'
+    '        body_octets = 0\n'
+    '        more = True\n'
+    '        while more:\n'
+    '            chunk, width, more = self._read_new_length_field(val, body_octets)\n'
+    '            del val[body_octets:body_octets + width]\n'
+    '            body_octets += chunk\n'
+    '        self._len = body_octets\n'
+    '\n')
+T('C09', 'twin-enc-static-helpers', TY, _ENC_DEF, _ENC_STATIC)
+T('C09', 'twin-dec-reader-method-single-loop', TY, _DEC_DEF, _DEC_METHOD)
+T('C09', 'twin-enc-dec-rewritten', TY, _ENC_DEF, _ENC_STATIC, more=[(TY, _DEC_DEF, _DEC_METHOD)])
+M('C09', 'rewritten-dec-del-at-zero', TY, _DEC_DEF, _DEC_METHOD.replace("del val[body_octets:body_octets + width]", "del val[:width]"), 'C09.8')
+M('C09', 'rewritten-dec-224', TY, _DEC_DEF, _DEC_METHOD.replace("if first < 224:", "if first <= 224:"), 'C09.1')
+M('C09', 'rewritten-enc-limit-8383', TY, _ENC_DEF, _ENC_STATIC.replace("_TWO_OCTET_LIMIT = 8384", "_TWO_OCTET_LIMIT = 8383"), 'C09.1')
+M('C09', 'rewritten-enc-high-octet', TY, _ENC_DEF, _ENC_STATIC.replace("(n >> 8) + 192", "(n >> 8) | 128"), 'C09.1')
 
 # =============================================================================================== C20
 M('C20', 'ops-loop-forward', PGP, "            for sig in reversed(self._signatures):\n                ops = sig.make_onepass()", "            for sig in self._signatures:\n                ops = sig.make_onepass()", 'C20.2')
@@ -602,3 +1197,101 @@ T('C09', 'twin-tag-expr', PT, "        tag = 0x80 | (self._lenfmt << 6)\n       
 M('C02', 'hash-id', CO, "    SHA224 = 0x0B", "    SHA224 = 0x0C", 'C02.1')
 M('C02', 'pk-id', CO, "    EdDSA = 0x16  #", "    EdDSA = 0x17  #", 'C02.1')
 M('C12', 'ripemd-id', CO, "    RIPEMD160 = 0x03", "    RIPEMD160 = 0x04", 'C12.2')
+
+# =============================================================================================== C18 (hardening: value-based rules; twins from twins/C07-ref1, C16-ref4, C18-ref1..4 and further ones)
+_FP_BODY = ("        fp = hashlib.new('sha1')\n\n        plen = self.keymaterial.publen()\n        bcde_len = self.int_to_bytes(6 + plen, 2)\n")
+# --- C18.1
+T('C18', 'twin-fp-hashlib-sha1', PK, "        fp = hashlib.new('sha1')", "        fp = hashlib.sha1()")
+T('C18', 'twin-fp-len-commuted', PK, "        bcde_len = self.int_to_bytes(6 + plen, 2)", "        bcde_len = self.int_to_bytes(plen + 4 + 2, minlen=2)")
+T('C18', 'twin-fp-digest-temp', PK, "        return Fingerprint(fp.hexdigest().upper())", "        digest = fp.hexdigest()\n        text = digest.upper()\n        return Fingerprint(text)")
+T('C18', 'twin-fp-upper-left-to-class', PK, "        return Fingerprint(fp.hexdigest().upper())", "        return Fingerprint(fp.hexdigest())")
+T('C18', 'twin-fp-alg-octet-list', PK, "        fp.update(self.int_to_bytes(self.pkalg))\n        # e)", "        fp.update(bytearray([self.pkalg]))\n        # e)")
+T('C18', 'twin-fp-version-number', PK, "        fp.update(b'\\x04')\n", "        fp.update(bytearray([4]))\n")
+T('C18', 'twin-fp-time-temporaries', PK, "        fp.update(self.int_to_bytes(calendar.timegm(self.created.utctimetuple()), 4))",
+  "        when = self.created\n        tt = when.utctimetuple()\n        seconds = calendar.timegm(tt)\n        fp.update(self.int_to_bytes(seconds, 4))")
+T('C18', 'twin-fp-join-renamed', PK,
+  "        fp = hashlib.new('sha1')\n\n        plen = self.keymaterial.publen()\n        bcde_len = self.int_to_bytes(6 + plen, 2)\n\n        # a.1) 0x99 (1 octet)\n        # a.2) high-order length octet\n        # a.3) low-order length octet\n        fp.update(b'\\x99' + bcde_len[:1] + bcde_len[-1:])\n        # b) version number = 4 (1 octet);\n        fp.update(b'\\x04')\n        # c) timestamp of key creation (4 octets);\n        fp.update(self.int_to_bytes(calendar.timegm(self.created.utctimetuple()), 4))\n        # d) algorithm (1 octet): 17 = DSA (example);\n        fp.update(self.int_to_bytes(self.pkalg))\n        # e) Algorithm-specific fields.\n        fp.update(self.keymaterial.__bytearray__()[:plen])\n",
+  "        digest = hashlib.new('sha1')\n        material = self.keymaterial\n        publen = material.publen()\n        length_octets = self.int_to_bytes(6 + publen, 2)\n        hashed = b''.join([b'\\x99', length_octets[:1], length_octets[-1:], b'\\x04',\n                           self.int_to_bytes(calendar.timegm(self.created.utctimetuple()), 4),\n                           self.int_to_bytes(self.pkalg), material.__bytearray__()[:publen]])\n        digest.update(hashed)\n        fp = digest\n")
+M('C18', 'fp-length-octets-swapped', PK, "        fp.update(b'\\x99' + bcde_len[:1] + bcde_len[-1:])", "        fp.update(b'\\x99' + bcde_len[-1:] + bcde_len[:1])", 'C18.1')
+M('C18', 'fp-version-3', PK, "        fp.update(b'\\x04')\n", "        fp.update(b'\\x03')\n", 'C18.1')
+M('C18', 'fp-publen-whole-material', PK, "        plen = self.keymaterial.publen()", "        plen = len(self.keymaterial)", 'C18.1')
+M('C18', 'fp-hashlib-sha256', PK, "        fp = hashlib.new('sha1')", "        fp = hashlib.sha256()", 'C18.1')
+M('C18', 'fp-digest-of-other-hasher', PK, "        return Fingerprint(fp.hexdigest().upper())", "        return Fingerprint(hashlib.new('sha1', self.keymaterial.__bytearray__()).hexdigest().upper())", 'C18.1')
+M('C18', 'fp-time-temp-drops-offset', PK, "        fp.update(self.int_to_bytes(calendar.timegm(self.created.utctimetuple()), 4))",
+  "        tt = self.created.timetuple()\n        fp.update(self.int_to_bytes(calendar.timegm(tt), 4))", 'C18')
+M('C18', 'fp-time-of-now', PK, "        fp.update(self.int_to_bytes(calendar.timegm(self.created.utctimetuple()), 4))",
+  "        fp.update(self.int_to_bytes(calendar.timegm(datetime.now(timezone.utc).utctimetuple()), 4))", 'C18.1')
+# --- C18.2
+T('C18', 'twin-export-extend', PK, "        _bytes += self.int_to_bytes(self.pkalg)\n        _bytes += self.keymaterial.__bytearray__()\n        return _bytes\n\n    def __copy__(self):\n        pk = self.__class__()",
+  "        _bytes.extend(bytearray([self.pkalg]))\n        body = self.keymaterial.__bytearray__()\n        _bytes += body\n        return _bytes\n\n    def __copy__(self):\n        pk = self.__class__()")
+T('C18', 'twin-parse-absolute-offsets', PK, "        self.created = packet[:4]\n        del packet[:4]\n\n        self.pkalg = packet[0]\n        del packet[0]\n\n        # bound keymaterial to the remaining length of the packet\n        pend = self.header.length - 6\n        self.keymaterial.parse(packet[:pend])\n        del packet[:pend]",
+  "        self.created = packet[:4]\n        self.pkalg = packet[4]\n        nmaterial = self.header.length - 1 - 4 - 1\n        self.keymaterial.parse(packet[5:5 + nmaterial])\n        del packet[:5 + nmaterial]")
+T('C18', 'twin-parse-bound-inline', PK, "        pend = self.header.length - 6\n        self.keymaterial.parse(packet[:pend])\n        del packet[:pend]",
+  "        self.keymaterial.parse(packet[0:self.header.length - 6])\n        del packet[:self.header.length - 6]")
+T('C18', 'twin-versioned-header-append', PT, "        _bytes += bytearray([self.version])\n        return _bytes", "        _bytes.append(self.version)\n        return _bytes")
+M('C18', 'parse-material-bound-5', PK, "        pend = self.header.length - 6\n", "        pend = self.header.length - 5\n", 'C18.2')
+M('C18', 'parse-material-unbounded', PK, "        self.keymaterial.parse(packet[:pend])\n        del packet[:pend]", "        self.keymaterial.parse(packet)\n        del packet[:pend]", 'C18.2')
+M('C18', 'parse-algorithm-not-consumed', PK, "        self.pkalg = packet[0]\n        del packet[0]\n\n        # bound keymaterial", "        self.pkalg = packet[0]\n\n        # bound keymaterial", 'C18.2')
+M('C18', 'export-time-timestamp', PK, "        _bytes += self.int_to_bytes(calendar.timegm(self.created.utctimetuple()), 4)", "        _bytes += self.int_to_bytes(int(self.created.timestamp()), 4)", 'C18')
+M('C18', 'versioned-header-tag-octet', PT, "        _bytes += bytearray([self.version])\n        return _bytes", "        _bytes += bytearray([self.tag])\n        return _bytes", 'C18.2')
+# --- C18.3
+T('C18', 'twin-publen-temporaries-super', FL, "    def publen(self):\n        return super(PrivKey, self).__len__()",
+  "    def publen(self) -> int:\n        # the public fields come first\n        public_octets = super().__len__()\n        return public_octets",
+  more=[(FL, "    def publen(self):\n        return len(self)", "    def publen(self) -> int:\n        \"\"\"number of leading octets that hold the public fields\"\"\"\n        nbytes = len(self)\n        return nbytes"),
+        (FL, "    def publen(self):\n        return ECDHPub.__len__(self)", "    def publen(self) -> int:\n        public_octets = ECDHPub.__len__(self)\n        return public_octets"),
+        (FL, "    def __len__(self):\n        return sum(len(getattr(self, i)) for i in self.__pubfields__)", "    def __len__(self) -> int:\n        return sum(len(getattr(self, field)) for field in self.__pubfields__)")])
+T('C18', 'twin-publen-dunder-call', FL, "    def publen(self):\n        return len(self)", "    def publen(self):\n        return self.__len__()")
+T('C18', 'twin-ecdh-publen-spelt-out', FL, "    def publen(self):\n        return ECDHPub.__len__(self)", "    def publen(self):\n        return len(self.p) + len(self.kdf) + len(encoder.encode(self.oid.value)) - 1")
+M('C18', 'publen-off-by-one', FL, "    def publen(self):\n        return super(PrivKey, self).__len__()", "    def publen(self):\n        return super(PrivKey, self).__len__() + 1", 'C18.3')
+M('C18', 'ecdh-publen-of-ecdsa-sibling', FL, "    def publen(self):\n        return ECDHPub.__len__(self)", "    def publen(self):\n        return ECDSAPub.__len__(self)", 'C18.3')
+M('C18', 'publen-skips-mro', FL, "    def publen(self):\n        return super(PrivKey, self).__len__()", "    def publen(self):\n        return PubKey.__len__(self)", 'C18.3')
+# --- C18.4
+T('C18', 'twin-keyid-from-length', TY, "        return self[-16:]", "        return self[len(self) - 16:]")
+T('C18', 'twin-key-fingerprint-guard-clause', PGP, "        if self._key:\n            return self._key.fingerprint\n", "        pkt = self._key\n        if not pkt:\n            return None\n        return pkt.fingerprint\n")
+M('C18', 'shortid-high-bits', TY, "        return self[-8:]", "        return self[:8]", 'C18.4')
+M('C18', 'keyid-off-by-one', TY, "        return self[-16:]", "        return self[-16:-1]", 'C18.4')
+M('C18', 'key-fingerprint-of-primary', PGP, "        if self._key:\n            return self._key.fingerprint\n", "        if self._key:\n            return (self.parent or self)._key.fingerprint\n", 'C18.4')
+# --- C18.6 (shared family with C07.1)
+T('C18', 'twin-pubkey-renamed-merged-oid', PK,
+  "        pk = PubKeyV4() if not isinstance(self, PrivSubKeyV4) else PubSubKeyV4()\n        pk.created = self.created\n        pk.pkalg = self.pkalg\n\n        # copy over MPIs\n        for pm in self.keymaterial.__pubfields__:\n            setattr(pk.keymaterial, pm, copy.copy(getattr(self.keymaterial, pm)))\n\n        if self.pkalg in {PubKeyAlgorithm.ECDSA, PubKeyAlgorithm.EdDSA}:\n            pk.keymaterial.oid = self.keymaterial.oid\n\n        if self.pkalg == PubKeyAlgorithm.ECDH:\n            pk.keymaterial.oid = self.keymaterial.oid\n            pk.keymaterial.kdf = copy.copy(self.keymaterial.kdf)\n\n        pk.update_hlen()\n        return pk\n",
+  "        if isinstance(self, PrivSubKeyV4):\n            pub = PubSubKeyV4()\n        else:\n            pub = PubKeyV4()\n        pub.created = self.created\n        pub.pkalg = self.pkalg\n\n        secret_km = self.keymaterial\n        public_km = pub.keymaterial\n\n        for field in secret_km.__pubfields__:\n            setattr(public_km, field, copy.copy(getattr(secret_km, field)))\n\n        if self.pkalg in {PubKeyAlgorithm.ECDSA, PubKeyAlgorithm.EdDSA, PubKeyAlgorithm.ECDH}:\n            public_km.oid = secret_km.oid\n\n        if self.pkalg == PubKeyAlgorithm.ECDH:\n            public_km.kdf = copy.copy(secret_km.kdf)\n\n        pub.update_hlen()\n        return pub\n")
+T('C18', 'twin-pubkey-created-last', PK, "        pk.created = self.created\n        pk.pkalg = self.pkalg\n\n        # copy over MPIs\n        for pm in self.keymaterial.__pubfields__:\n            setattr(pk.keymaterial, pm, copy.copy(getattr(self.keymaterial, pm)))\n",
+  "        pk.pkalg = self.pkalg\n\n        # copy over MPIs\n        names = self.keymaterial.__pubfields__\n        for name in names:\n            value = copy.copy(getattr(self.keymaterial, name))\n            setattr(pk.keymaterial, name, value)\n        pk.created = self.created\n")
+M('C18', 'pubkey-loop-skips-first-field', PK, "        for pm in self.keymaterial.__pubfields__:\n            setattr(pk.keymaterial, pm, copy.copy(getattr(self.keymaterial, pm)))", "        for pm in self.keymaterial.__pubfields__[1:]:\n            setattr(pk.keymaterial, pm, copy.copy(getattr(self.keymaterial, pm)))", 'C18.6')
+M('C18', 'pubkey-loop-over-temp-privfields', PK, "        for pm in self.keymaterial.__pubfields__:\n            setattr(pk.keymaterial, pm, copy.copy(getattr(self.keymaterial, pm)))", "        km = self.keymaterial\n        for pm in km.__pubfields__ + km.__privfields__:\n            setattr(pk.keymaterial, pm, copy.copy(getattr(km, pm)))", 'C18.6')
+M('C18', 'pubkey-field-from-fresh-default', PK, "            setattr(pk.keymaterial, pm, copy.copy(getattr(self.keymaterial, pm)))", "            setattr(pk.keymaterial, pm, copy.copy(getattr(pk.keymaterial, pm)))", 'C18.6')
+M('C18', 'pubkey-ecdh-curve-not-copied', PK, "        if self.pkalg == PubKeyAlgorithm.ECDH:\n            pk.keymaterial.oid = self.keymaterial.oid\n", "        if self.pkalg == PubKeyAlgorithm.ECDH:\n", 'C18.6')
+M('C18', 'pubkey-merged-oid-loses-eddsa', PK, "        if self.pkalg in {PubKeyAlgorithm.ECDSA, PubKeyAlgorithm.EdDSA}:\n            pk.keymaterial.oid = self.keymaterial.oid\n\n        if self.pkalg == PubKeyAlgorithm.ECDH:\n            pk.keymaterial.oid = self.keymaterial.oid\n",
+  "        if self.pkalg in {PubKeyAlgorithm.ECDSA, PubKeyAlgorithm.ECDH}:\n            pk.keymaterial.oid = self.keymaterial.oid\n\n        if self.pkalg == PubKeyAlgorithm.ECDH:\n", 'C18.6')
+# --- C18.7 (shared family with C16.4)
+T('C18', 'twin-ids-temporaries-merged-ifs', PGP,
+  "        if prefs.pop('include_issuer_fingerprint', True):\n            if isinstance(self._key, PrivKeyV4):\n                sig._signature.subpackets.addnew('IssuerFingerprint', hashed=True, _version=4, _issuer_fpr=self.fingerprint)\n",
+  "        if prefs.pop('include_issuer_fingerprint', True) and isinstance(self._key, PrivKeyV4):\n            issuer_fpr = self.fingerprint\n            sig._signature.subpackets.addnew('IssuerFingerprint', hashed=True, _version=4, _issuer_fpr=issuer_fpr)\n",
+  more=[(PGP, "        pkesk.encrypter = bytearray(binascii.unhexlify(self.fingerprint.keyid.encode('latin-1')))", "        recipient_keyid = self.fingerprint.keyid\n        pkesk.encrypter = bytearray(binascii.unhexlify(recipient_keyid.encode('latin-1')))"),
+        (PGP, "        sig = PGPSignature()\n\n        if created is None:\n            created = datetime.now(timezone.utc)\n        sigpkt = SignatureV4()", "        if created is None:\n            created = datetime.now(timezone.utc)\n        sigpkt = SignatureV4()"),
+        (PGP, "            sigpkt.halg = halg\n\n        sig._signature = sigpkt", "            sigpkt.halg = halg\n\n        sig = PGPSignature()\n        sig._signature = sigpkt")])
+T('C18', 'twin-ids-keyword-arguments', PGP, "        sig = PGPSignature.new(SignatureType.DirectlyOnKey, self.key_algorithm, hash_algo, self.fingerprint.keyid, created=prefs.pop('created', None))",
+  "        own_id = self.fingerprint.keyid\n        sig = PGPSignature.new(SignatureType.DirectlyOnKey, halg=hash_algo, signer=own_id, pkalg=self.key_algorithm, created=prefs.pop('created', None))",
+  more=[(PGP, "addnew('IssuerFingerprint', hashed=True, _version=4, _issuer_fpr=self.fingerprint)", "addnew('IssuerFingerprint', True, _issuer_fpr=self.fingerprint, _version=4)"),
+        (PGP, "        _sig = self._key.sign(sigdata, getattr(hashes, sig.hash_algorithm.name)())", "        material = self._key\n        _sig = material.sign(sigdata, getattr(hashes, sig.hash_algorithm.name)())")])
+T('C18', 'twin-recipient-id-fromhex', PGP, "        pkesk.encrypter = bytearray(binascii.unhexlify(self.fingerprint.keyid.encode('latin-1')))\n        pkesk.pkalg = self.key_algorithm",
+  "        pkesk.pkalg = self.key_algorithm\n        pkesk.encrypter = bytearray(bytes.fromhex(self.fingerprint.keyid))")
+T('C18', 'twin-new-signature-packet-renamed', PGP, "        sigpkt.sigtype = sigtype\n        sigpkt.pubalg = pkalg\n\n        if halg is not None:\n            sigpkt.halg = halg\n\n        sig._signature = sigpkt\n        return sig",
+  "        sig._signature = sigpkt\n        packet = sig._signature\n        packet.pubalg = pkalg\n        packet.sigtype = sigtype\n\n        if halg is not None:\n            packet.halg = halg\n\n        return sig")
+M('C18', 'issuer-id-of-primary-in-bind', PGP, "            raise PGPError\n\n        sig = PGPSignature.new(sig_type, self.key_algorithm, hash_algo, self.fingerprint.keyid, created=prefs.pop('created', None))",
+  "            raise PGPError\n\n        signer = (key if key.is_primary else self).fingerprint.keyid\n        sig = PGPSignature.new(sig_type, self.key_algorithm, hash_algo, signer, created=prefs.pop('created', None))", 'C18.7')
+M('C18', 'issuer-keyword-other-key', PGP, "        sig = PGPSignature.new(SignatureType.DirectlyOnKey, self.key_algorithm, hash_algo, self.fingerprint.keyid, created=prefs.pop('created', None))",
+  "        sig = PGPSignature.new(SignatureType.DirectlyOnKey, self.key_algorithm, hash_algo, signer=revoker.fingerprint.keyid, created=prefs.pop('created', None))", 'C18.7')
+M('C18', 'new-issuer-not-recorded', PGP, "        sigpkt.subpackets.addnew('Issuer', _issuer=signer)\n", "", 'C18.7')
+M('C18', 'new-algorithm-only-if-hash-given', PGP, "        sigpkt.sigtype = sigtype\n        sigpkt.pubalg = pkalg\n\n        if halg is not None:\n            sigpkt.halg = halg\n", "        sigpkt.sigtype = sigtype\n\n        if halg is not None:\n            sigpkt.pubalg = pkalg\n            sigpkt.halg = halg\n", 'C18.7')
+M('C18', 'issuer-fpr-temp-from-parent', PGP, "                sig._signature.subpackets.addnew('IssuerFingerprint', hashed=True, _version=4, _issuer_fpr=self.fingerprint)",
+  "                owner = self if self.is_primary else self.parent\n                fpr = owner.fingerprint\n                sig._signature.subpackets.addnew('IssuerFingerprint', hashed=True, _version=4, _issuer_fpr=fpr)", 'C18.7')
+M('C18', 'issuer-fpr-version-5', PGP, "addnew('IssuerFingerprint', hashed=True, _version=4, _issuer_fpr=self.fingerprint)", "addnew('IssuerFingerprint', hashed=True, _version=5, _issuer_fpr=self.fingerprint)", 'C18.7')
+M('C18', 'sign-with-primary-material', PGP, "        _sig = self._key.sign(sigdata, getattr(hashes, sig.hash_algorithm.name)())", "        signing = (self.parent or self)._key\n        _sig = signing.sign(sigdata, getattr(hashes, sig.hash_algorithm.name)())", 'C18.7')
+M('C18', 'recipient-shortid', PGP, "        pkesk.encrypter = bytearray(binascii.unhexlify(self.fingerprint.keyid.encode('latin-1')))", "        pkesk.encrypter = bytearray(binascii.unhexlify(self.fingerprint.shortid.encode('latin-1')))", 'C18.7')
+M('C18', 'recipient-raw-ascii-id', PGP, "        pkesk.encrypter = bytearray(binascii.unhexlify(self.fingerprint.keyid.encode('latin-1')))", "        pkesk.encrypter = bytearray(self.fingerprint.keyid.encode('latin-1'))", 'C18.7')
+M('C18', 'session-key-to-primary-material', PGP, "        pkesk.encrypt_sk(self._key, cipher_algo, sessionkey)", "        target = self.parent._key if self.parent is not None else self._key\n        pkesk.encrypt_sk(target, cipher_algo, sessionkey)", 'C18.7')
+T('C18', 'twin-pubkey-class-via-local', PK, "        pk = PubKeyV4() if not isinstance(self, PrivSubKeyV4) else PubSubKeyV4()\n", "        klass = PubSubKeyV4 if isinstance(self, PrivSubKeyV4) else PubKeyV4\n        pk = klass()\n")
+M('C18', 'pubkey-class-via-local-keeps-private-subkey', PK, "        pk = PubKeyV4() if not isinstance(self, PrivSubKeyV4) else PubSubKeyV4()\n", "        klass = PrivSubKeyV4 if isinstance(self, PrivSubKeyV4) else PubKeyV4\n        pk = klass()\n", 'C18.6')
+T('C18', 'twin-keyid-of-plain-text', TY, "        return self[-16:]", "        return str(self)[-16:]",
+  more=[(PGP, "        if self._key:\n            return self._key.fingerprint\n", "        return self._key.fingerprint if self._key else None\n")])
